@@ -12,2138 +12,2069 @@ Definition show_fres (r : fres) : string :=
   end.
 Definition check (rs : list rune) : string := digest (show_fres (format_res rs)).
 Definition full (rs : list rune) : string := show_fres (format_res rs).
-Eval vm_compute in ("<<<M4132>>>" ++ check (runes_of_ascii "root packet i64_ {
-    u64 Z9_ @lengthOf(uint8x) `
-    `,
-    repeat zchar x,
-    match Packet as a1 {
-        [""a	b""] : packetx,
-        [
-            255, 10, 4294967296, ""x y"", """ ++ [28040; 24687]%N ++ runes_of_ascii """,
-            ""it's"", """"
-        ] : falsey,
-    },
-    rootA {
-        repeat charz {
-            // " ++ [128512]%N ++ runes_of_ascii " emoji
-            match x as a1 {
-                10 : metadata,
-                [
-                    00, 007, ""{,}"", ""a	b"", ""abc"",
-                    ""// no comment""
-                ] : int,
-                3 : tag,
-                255 : x,
-                ""{,}"" : Z9_,
-            },
-        },
-        //
-        body {
-            repeat roots {
-                f32 i8i8 @calculatedFrom(""a\\"") `line1
-                line2`,
-            },
-            i8 leftPad `doc`,
-        },
-        o @calculatedFrom(""" ++ [28040; 24687]%N ++ runes_of_ascii """) `" ++ [28040; 24687; 31867; 22411]%N ++ runes_of_ascii "`,
-    },
-    match calculatedFrom as chars {
-        // " ++ [27880; 37322]%N ++ runes_of_ascii "
-        10 : i64_,
-    },
-    @lengthOf(i8i8)
-    @tag(3)
-    match Logon as o {
-        [
-            42, """", ""it's"", """ ++ [28040; 24687]%N ++ runes_of_ascii """, """",
-            """ ++ [28040; 24687]%N ++ runes_of_ascii """
-        ] : tag,
-    },// `tick` ""quote"" 'q'
-    zchar[0123456789] rootA @calculatedFrom(""abc""),
-    zchar[4294967296] Z9_,
-    zchar[65535] Header @lengthOf(trueish),
-    @tag(0123456789)
-    repeat trueish {
-        float {
-            repeat char[10] metadata,
-            f32 float,
-            As @calculatedFrom(""" ++ [233]%N ++ runes_of_ascii "t" ++ [233]%N ++ runes_of_ascii """),
-            tag @calculatedFrom(""CRC32"") `line1
-            line2`,
-        },
-    },
-}
-
-packet packetx {
-    char[] options1,
-    @calculatedFrom(""" ++ [28040; 24687]%N ++ runes_of_ascii """)
-    @tag(1)
-    match lengthOf as calculatedFrom {
-        ""packet"" : uint8x,
-        /// triple
-        [""" ++ [128512]%N ++ runes_of_ascii """] : trueish,
-        [3, ""CRC32""] : uint8x,
-        [""\n"", ""{,}""] : metadata,
-    },
-    @tag(00)
-    match Foo as falsey {
-        0 : pack,
-    },
-    @calculatedFrom(""{,}"")
-    repeat Logon `" ++ [233]%N ++ runes_of_ascii "`,
-    @lengthOf(stringy)
-    A @lengthOf(pack),
-    @tag(00)
-    match u8x as Packet {
-        65535 : _x,
-    },
-    @rightPad()
-    leftPad @calculatedFrom("""") `
-    `,
-    @calculatedFrom("""")
-    @tag(4294967296)
-    @tag(7)
-    zchar[10] asx `tab	here`,
-    @lengthOf(options1)
-    //
-    f32 packetx,
-    // trailing space 
-    calculatedFrom {
-        zchar[0] Packet,
-    },// @lengthOf(
-}
-
-MetaData u128 {
-}
-
-packet o {
-    @lengthOf(lengthOf)
-    tag body `line1
-    line2`,
-    packetx,
-    repeat uint32 chars,
-    match pack as u128 {
-        ""it's"" : a1,
-        [""x y"", ""it's""] : packetx,
-    },
-    @leftPad()
-    @calculatedFrom(""packet"")
-    @calculatedFrom(""1"")
-    match i8i8 as Pad {
-        [1, 4294967296, ""\n""] : T,
-    },
-    tag Foo,
-    A {
-        repeat pack,// `tick` ""quote"" 'q'
-        repeat T {
-            string asx @calculatedFrom(""// no comment"") `
-            `,
-            char[] x @lengthOf(trueish),
-            zchar[007] body @lengthOf(A) `two words`,
-        },
-        repeat uint8x {
-            match leftPad as A {
-                [""\" ++ [233]%N ++ runes_of_ascii """] : metadata,
-            },
-            repeat MetaDataX int `u8 x,`,
-            match rootA as Foo {
-                ""x y"" : Logon,
-            },
-            match MetaDataX as metadata {
-                4294967296 : _x,
-                [
-                    4294967296, ""{,}"", """", ""1"", ""\" ++ [233]%N ++ runes_of_ascii """,
-                    ""abc""
-                ] : roots,
-                [""{,}"", """ ++ [128512]%N ++ runes_of_ascii """] : Z9_,
-                ""a	b"" : trueish,
-                ""\" ++ [233]%N ++ runes_of_ascii """ : int,
-                [0, 1] : i64_,
-            },
-        },
-    },
-    repeat chars u8x,
-    Logon int `u8 x,`,
-    repeat packetx `a\`,
-}")).
-Eval vm_compute in ("<<<M4069>>>" ++ check (runes_of_ascii "packet trueish {
-    Packet {
-        u8x {
-            match Packet as f32a {
-                [255, 255, 1] : calculatedFrom,
-                // packet A { u8 x, }
-                ""// no comment"" : a1,
-                10 : Foo,
-                ""\" ++ [233]%N ++ runes_of_ascii """ : repeatCount,
-                ""abc"" : MetaDataX,
-                00 : u128,
-            },
-            repeat o roots `tab	here`,// @lengthOf(
-            int16 packetx `" ++ [28040; 24687; 31867; 22411]%N ++ runes_of_ascii "`,
-        },
-    },
-    crc @lengthOf(i8i8) ``,
-    repeat uint8 body,
-    @leftPad('\x00')
-    string packetx @calculatedFrom(""packet""),
-    f64 int `line1
-    line2`,
-}
-
-packet crc {
-    i32 u128 `line1
-    line2`,
-    @tag(42)
-    lengthOf {
-        leftPad @lengthOf(repeatCount),
-        u16 _x,
-        match rootA as msg_type {
-            [""""] : Z9_,
-            0 : tag,
-            ""\" ++ [233]%N ++ runes_of_ascii """ : As,
-            ""1"" : Logon,
-            00 : A,
-            3 : BodyLength,
-        },
-    },
-    @tag(1)
-    int8 Pad,
-    zchar[65535] asx,
-}
-
-options {
-    trueish = false;
-}
-
-packet Packet {
-    @calculatedFrom(""abc"")
-    u {
-        repeat Logon {
-            char[] msg_type @calculatedFrom(""a\""b"") `// not a comment`,
-        },
-        repeat char[00] rootA,
-    },
-    @calculatedFrom(""abc"")
-    string float,
-    match Foo as Z9_ {
-        [
-            0, 007, 4294967296, ""packet"", ""a	b"",
-            ""\n""
-        ] : trueish,
-        [65535, """ ++ [28040; 24687]%N ++ runes_of_ascii """] : u8x,
-        65535 : roots,
-        // a // b
-        [""CRC32""] : falsey,
-        00 : roots,
-    },
-    @rightPad(' ')
-    x_y_z @calculatedFrom(""\" ++ [233]%N ++ runes_of_ascii """),
-}
-
-packet matchKey {
-    @tag(7)
-    leftPad @calculatedFrom(""\" ++ [233]%N ++ runes_of_ascii """) `" ++ [233]%N ++ runes_of_ascii "`,
-    @tag(007)
-    uint8 leftPad,
-    int {
-        i16 x ``,
-        match len as f32a {
-            ""it's"" : calculatedFrom,
-            [0] : lengthOf,
-            7 : x_y_z,
-            ""a\""b"" : float,
-            1 : Pad,
-        },
-    },
-    o {
-        // @lengthOf(
-        u8x metadata `tab	here`,
-        asx {
-            match int as x_y_z {
-                ""a	b"" : falsey,
-            },
-        },
-        repeat int16 As `crlf
-        line`,
-    },
-    i32 i64_ `" ++ [233]%N ++ runes_of_ascii "`,
-    T,
-}")).
-Eval vm_compute in ("<<<M4486>>>" ++ check (runes_of_ascii "
-packet
-	Packet
-
-{
-
-@tag(
-10 // a // b
-) match
-	trueish as  x_y_z
-
-{
-
-    ""it's""
-
-:
-i8i8,
-	// " ++ [27880; 37322]%N ++ runes_of_ascii "
-// " ++ [27880; 37322]%N ++ runes_of_ascii "
-
-	00 :
-asx
-    }  ,	zchar[  007  ]
-u@calculatedFrom(
-""`tick`""
-) `line1
-line2`
-    ,  
-      /// triple
-    chars
-    @calculatedFrom( """" 
-)
-
-    ,
-
-    match zchar
-
-    as  _x 
-{ 00 :
-rootA ""\" ++ [233]%N ++ runes_of_ascii """	: 
-metadata 
-	// c
-      // trailing space 
-		,}
-        // a // b
-  //
-,
-body 
-{
-    u32
-	u128
-
-@calculatedFrom(""{,}"") ,repeat
-	char[
-//x
-  4294967296  ]  u `say ""hi""`,
-
-    } // c
-  	,
-@lengthOf( 
-stringy
-
-)
-	float	{string 	 //x
-leftPad ,	repeat uint16
-Pad
-,
-char
-	u	// @lengthOf(
-
-	, 	 // " ++ [128512]%N ++ runes_of_ascii " emoji
-    i8i8
-    u	,	}
-,
-
-match
-o	as
-
-x
-
-    {
-
-[
-
-""`tick`""
-    , ""1""
-, 10
-, 
-//
-
-// c
-1
-, 
-00
-	,	0
-,
-
-    255] :
-uint8x  //
-
-	,
-    0
-:
-T , 	 //
-	1: 
-trueish
-1
-    : rootA
-	,} // @lengthOf(
-	  ,  zchar[//	t
-255
-    ]
-
-    T `line1
-line2`
-, @leftPad
-( '0' 	 // c
-    )@leftPad ( 
-'\x00')	@tag( 
-007
-)
-
-    match  T
-
-as u8x {[
-
-007
-
-] :  A  ,0
-
-    :	x
-, [4294967296]  :
-	charz  ,  """":
-As //
-
-,
-	7	:	// `tick` ""quote"" 'q'
-      int , 65535
-:
-    x_y_z 
-,
-
-} ,// trailing space 
-	}
-	options{ 	 /// triple
-  x  = '\x00' 
-;// packet A { u8 x, }
-    	} 
-
-    // " ++ [128512]%N ++ runes_of_ascii " emoji
-  root packet  i64_
-    {
-
-    @tag(
-	4294967296  ) falsey	options1// `tick` ""quote"" 'q'
-
-	, uint64 Pad `doc`
-
-, @tag(
-	65535  )
-	char 
-        // " ++ [128512]%N ++ runes_of_ascii " emoji
-
-	/// triple
-  	Logon 
-@calculatedFrom( """"
-	// @lengthOf(
-  // c
-) ,	char[  0	// @lengthOf(
-
-  ]
-
-    MetaDataX`a\`	/// triple
-  , 	 //
-metadata 
-f32a `tab	here`,
-
-    stringy Header,
-@leftPad ()  //x
-
-	@calculatedFrom( // c
-	""\" ++ [233]%N ++ runes_of_ascii """ 
-)@calculatedFrom( """ ++ [128512]%N ++ runes_of_ascii """
-
-) char[]body
-    @calculatedFrom(  ""a	b"" )
-    `a\`
-, } ")).
-Eval vm_compute in ("<<<M120>>>" ++ check (runes_of_ascii "root packet // c
-falsey { roots { repeat x_y_z ,
-} , char[] T `
-` , char[	3 ]T/// triple
-,zchar { repeat
-zchar[ 65535 ]
-    rootA  `tab	here`
-    , int32 leftPad , }
-,
-// packet A { u8 x, }
-// `tick` ""quote"" 'q'
-repeat
-    Packet
-    //	t
-    ,repeat
-char[ 00 ] body`" ++ [233]%N ++ runes_of_ascii "` , @tag(
-00// @lengthOf(
-) a1 i64_
-, i8i8 BodyLength `{ , }`
-    , match
-    crc as u8x
-// a // b
-//	t
-{ [
-    // `tick` ""quote"" 'q'
-    0 ]:
-    matchKey , [ 0123456789,
-""a\\""
-,
-""abc"" ]:As , """ ++ [128512]%N ++ runes_of_ascii """ : tag, 7 :
-    u8x , 42 : f32a 00 :options1 } // trailing space 
-,} packet// " ++ [27880; 37322]%N ++ runes_of_ascii "
-MetaDataX{@tag( 42)@leftPad ( ) @leftPad
-    //x
-    ( )  body i64_ , } packet int{ @calculatedFrom(
-// " ++ [27880; 37322]%N ++ runes_of_ascii "
-//
-""" ++ [233]%N ++ runes_of_ascii "t" ++ [233]%N ++ runes_of_ascii """)
-@tag(42 ) @leftPad	( '\x00' ) repeat u8x ,  repeat len , @tag(	255	)match calculatedFrom as Z9_ {  ""CRC32"" :	len,""packet"" : falsey, [65535,
-42//x
-]// @lengthOf(
-: charz ,
-} // @lengthOf(
-,i8i8 ,match
-i8i8
-    as Foo // trailing space 
-{ ""a\\"" : x , } , @leftPad
-( ) char crc `say ""hi""` ,
-} options {	Pad =
-    zchar[ // trailing space 
-0
-]; pack="""" // c
-;
-    } root
-    packet lengthOf
-{ @leftPad ('0' ) A
-    // trailing space 
-    @calculatedFrom(
-// " ++ [27880; 37322]%N ++ runes_of_ascii "
-//
-""\" ++ [233]%N ++ runes_of_ascii """),@calculatedFrom( ""abc""// c
-)  repeat// c
-char[] a1 ,repeat int  trueish  , @rightPad(
-    '\x00'
-    )// a // b
-zchar[4294967296 ] _x ,repeat
-stringy //
-x	,@tag( 00  ) @lengthOf( int )  @tag( 0) u8	T	,
-@tag(1 ) @lengthOf(
-a1 ) @calculatedFrom( ""it's"" ) char[ 10 ] body ,  @lengthOf( f32a )
-    rootA
-@calculatedFrom(""{,}"" ), // " ++ [128512]%N ++ runes_of_ascii " emoji
-} 	 ")).
-Eval vm_compute in ("<<<M105>>>" ++ check (runes_of_ascii "packet
-uint8x {match Pad as// " ++ [128512]%N ++ runes_of_ascii " emoji
-repeatCount{ [0 ] :
-lengthOf ,[""// no comment"" ] :
-metadata ,} , metadata
-// trailing space 
-//
-, zchar[/// triple
-1
-] trueish//	t
-, @calculatedFrom(""a\""b"" ) match//x
-roots as f32a { 4294967296
-: i64_ , ""it's""
-: a1 , [
-    // trailing space 
-    00	,
-    0123456789 ] : As ,
-255 : Packet , ""{,}"" :
-T/// triple
-0
-    :
-falsey } ,
-    body @calculatedFrom( ""\n""
-    // trailing space 
-    ) , @calculatedFrom( """ ++ [128512]%N ++ runes_of_ascii """ )	@tag(
-10 ) char[ 10 ]
-    trueish `doc` ,	@tag( 255 ) repeat
-    Z9_ { asx chars`// not a comment` , } , @lengthOf(Packet ) u16
-    crc , }
-    // `tick` ""quote"" 'q'
-    options
-{ BodyLength =
-    i32 ; x// " ++ [128512]%N ++ runes_of_ascii " emoji
-=
-255
-    ; u= 3 } options
-{ }
-packet
-    calculatedFrom {	}
-    //x
-    root
-packet Header {
-    Pad {
-repeatCount ,  uint16 zchar , match msg_type
-as
-pack
-    /// triple
-    {	""abc"" : repeatCount , ""{,}"" : repeatCount""a	b""	: calculatedFrom},
-repeat string
-Logon `a\` , }
-,@lengthOf( x_y_z
-    ) match
-tag as repeatCount { 007 :  BodyLength , [
-    //	t
-    """ ++ [28040; 24687]%N ++ runes_of_ascii """ ] :
-BodyLength 42: string_ ""// no comment""
-// trailing space 
-/// triple
-: //
-Z9_ , 4294967296:
-    // " ++ [128512]%N ++ runes_of_ascii " emoji
-    _x
-    } , f64 u `it's` , zchar[ 00] f32a `doc` ,match
-    i64_
-    as Logon
-    { 4294967296// a // b
-:
-metadata ,
-}
-, char[1 ]Pad
-, zchar[  0123456789 ] float // @lengthOf(
-`` , }
-
-")).
-Eval vm_compute in ("<<<M3621>>>" ++ check (runes_of_ascii "// top
-options // c0
-{ // c1
-StringPrefixLenType = // c3a
-  // c3b
-u8 // c4a
-  // c4b
-;
-    // c5
-ArrayPrefixLenType = u32 // c8
-; } // c10
-packet Quote // c12
-{ // c13a
-  // c13b
-u32 // c14a
-  // c14b
-Ref // c15a
-  // c15b
-, InNote74 {
-    // c18
-u8
-    // c19
-pad0 // c20a
-  // c20b
-, }
-    // c22
-, }
-    // c24
-packet // c25a
-  // c25b
-Ack
-    // c26
-{ // c27a
-  // c27b
-repeat // c28a
-  // c28b
-string OrderId // c30a
-  // c30b
-, // c31
-}
-    // c32
-packet // c33
-Logout { // c35a
-  // c35b
-zchar[ 7
-    // c37
-] // c38a
-  // c38b
-venue ,
-    // c40
-char[ // c41
-12
-    // c42
-]
-    // c43
-Px ,
-    // c45
-string count ,
-    // c48
-char[] Tail
-    // c50
-, // c51a
-  // c51b
-char[] Qty // c53
-, Quote // c55a
-  // c55b
-, } // c57a
-  // c57b
-root
-    // c58
-packet // c59a
-  // c59b
-Trade // c60
-{
-    // c61
-zchar[ // c62
-2
-    // c63
-] // c64
-price // c65a
-  // c65b
-,
-    // c66
-u32 x // c68a
-  // c68b
-, u32
-    // c70
-lastPx @lengthOf( // c72a
-  // c72b
-Body
-    // c73
-) // c74a
-  // c74b
-, // c75a
-  // c75b
-match x // c77a
-  // c77b
-as Body {
-    // c80
-148 // c81
-: // c82a
-  // c82b
-Ack
-    // c83
-, // c84a
-  // c84b
-171
-    // c85
-: Quote , // c88a
-  // c88b
-15 // c89
-: Logout // c91
-, }
-    // c93
-, // c94
-} ")).
-Eval vm_compute in ("<<<M3935>>>" ++ check (runes_of_ascii "packet  leftPad  //x
-  	{  uint16
-x ,
-lengthOf	// a // b
-
-chars
-`// not a comment` 
-,  @calculatedFrom(
-""a\\""
-	) repeat	char[] As
-`{ , }`
-, metadata@calculatedFrom(""// no comment""
-
-    )	,  uint32  f32a
-    `
-`,
-	@tag( // @lengthOf(
-  255
-)
-repeat
-
-trueish	`doc`
-	,
-char[]trueish
-@lengthOf(len  ) ,int16
-i64_
-
-,
-
-@calculatedFrom( ""\n""
-	)
-	i8i8 `" ++ [28040; 24687; 31867; 22411]%N ++ runes_of_ascii "`  ,
-
-} root packet	crc{repeat uint8x
-packetx
-,
-    match u8x
-as	T
-{
-	0
-
-: 
-crc	,	1 :  T	,
-[ ""a\\"" // c
-  	,
-	0123456789	,
-	00 ] :chars	,	7:
-T	//	t
-	,
-    } // a // b
-		, roots 
-@lengthOf(
-lengthOf  )
-`two words`,
-	match
-	rootA as A
-{
-
-10
-
-    :
-    x  ,  } ,
-
-    crc
-@calculatedFrom(
-
-    ""a	b""  ),
-    chars	{match
-    lengthOf as	Header
-
-{ 4294967296 :	// c
-	zchar,[
-4294967296 
-,  ""a\\"" ]
-
-    :
-
-asx  ,
-}	,
-_x@calculatedFrom( ""\" ++ [233]%N ++ runes_of_ascii """
-	)	`tab	here`	// a // b
-    , 
-}	,
-}//
-	MetaData
-asx
-{	zchar[
-
-    42 
-]uint8x 
-
-// `tick` ""quote"" 'q'
-
-// `tick` ""quote"" 'q'
-    	,
-
-    uint8 Logon//x
-    `// not a comment`
-,} MetaData	o 
-        //	t
-    //x
-  	{u16 	 // " ++ [27880; 37322]%N ++ runes_of_ascii "
-
-	_x , x_y_z
-
-    float 
-`crlf
-line`,  BodyLength
-calculatedFrom
-`tab	here`
-
-    ,  uint16 
-MetaDataX,
-}")).
-Eval vm_compute in ("<<<M4310>>>" ++ check (runes_of_ascii "packet falsey {
-    int64 BodyLength,
-    @tag(4294967296)
-    @leftPad()
-    match _x as Foo {
-        ""\n"" : asx,
-        // `tick` ""quote"" 'q'
-        // `tick` ""quote"" 'q'
-        [
-            4294967296, 7, ""{,}"", """ ++ [128512]%N ++ runes_of_ascii """, """ ++ [28040; 24687]%N ++ runes_of_ascii """,
-            ""packet"", ""packet"", ""x y""
-        ] : x_y_z,
-    },// `tick` ""quote"" 'q'
-    A len `// not a comment`,
-    //
-    repeat char[] i64_ `crlf
-        line`,
-    // trailing space 
-    // trailing space 
-    repeat char[] u `line1
-        line2`,
-    tag {
-        string metadata,
-    },
-    // " ++ [27880; 37322]%N ++ runes_of_ascii "
-    // " ++ [128512]%N ++ runes_of_ascii " emoji
-    char[3] falsey @lengthOf(leftPad) `crlf
-        line`,
-}
-
-root packet MetaDataX {
-    @lengthOf(u8x)
-    match f32a as Header {
-        [255, ""a\""b""] : u8x,
-        ""packet"" : uint8x,
-        ""1"" : _x,
-    },
-    Packet `doc`,
-    zchar[3] u128 @lengthOf(asx),
-}
-
-MetaData x {
-    As roots,
-    char[10] crc `{ , }`,
-    BodyLength asx `u8 x,`,
-    matchKey i8i8,
-    falsey pack `" ++ [233]%N ++ runes_of_ascii "`,
-    leftPad metadata,
-}
-
-options {
-    pack = 0
-    tag = f32
-    i64_ = ""abc"";
-    // " ++ [128512]%N ++ runes_of_ascii " emoji
-    // " ++ [128512]%N ++ runes_of_ascii " emoji
-    f32a = true;
-}
-
-packet Foo {
-}")).
-Eval vm_compute in ("<<<M674>>>" ++ check (runes_of_ascii "root packet  Foo	{
-repeat
-Packet { match i64_ as f32a{ ""1"" : Z9_, } ,
-match
-    // " ++ [128512]%N ++ runes_of_ascii " emoji
-    options1  as stringy{
-[
-1
-] :Foo	1 : x_y_z
-    // trailing space 
-    ,
-// packet A { u8 x, }
-// packet A { u8 x, }
-[ 7 , 42
-,
-""1""  , """ ++ [233]%N ++ runes_of_ascii "t" ++ [233]%N ++ runes_of_ascii """ ,
-""\" ++ [233]%N ++ runes_of_ascii """
-, """ ++ [128512]%N ++ runes_of_ascii """ , ""{,}"" ] // packet A { u8 x, }
-: float,
-0123456789 : x ,	} , }
-, @lengthOf(// `tick` ""quote"" 'q'
-u // " ++ [128512]%N ++ runes_of_ascii " emoji
-) char[] // " ++ [128512]%N ++ runes_of_ascii " emoji
-MetaDataX ,@tag( 4294967296
-) u128 , @calculatedFrom( """ ++ [128512]%N ++ runes_of_ascii """ )@tag( 4294967296 ) MetaDataX
-    // @lengthOf(
-    @calculatedFrom( """ ++ [128512]%N ++ runes_of_ascii """
-) `tab	here` ,
-    } packet BodyLength
-    {
-    char[ 0]u128	``// packet A { u8 x, }
-, i64_
-    ,
-    repeat//
-matchKey{
-    char[]
-x  `u8 x,`
-, u128 f32a `u8 x,`
-, char[	42 ]  calculatedFrom ,packetx @calculatedFrom(// packet A { u8 x, }
-""" ++ [128512]%N ++ runes_of_ascii """ ) `a\`  , } , @lengthOf( Foo ) @rightPad
-(
-    // trailing space 
-    '0'  ) int64	o
-// trailing space 
-// `tick` ""quote"" 'q'
-@lengthOf( float	) , }
-    MetaData
-// a // b
-// `tick` ""quote"" 'q'
-_x
-// @lengthOf(
-// " ++ [27880; 37322]%N ++ runes_of_ascii "
-{
-u16 x_y_z ,
-    //x
-    zchar[ 42 ] falsey , }")).
-Eval vm_compute in ("<<<M192>>>" ++ check (runes_of_ascii "//x
-packet	u8x { @lengthOf(  As
-    )
-repeat char[ // c
-4294967296
-]
-    int `{ , }` ,repeat
-    // " ++ [128512]%N ++ runes_of_ascii " emoji
-    int8 len
-`two words` , }root packet tag// a // b
-{} root packet rootA { o@calculatedFrom(""""
-    ) ,leftPad i64_ `it's`
-// a // b
-// packet A { u8 x, }
-, // " ++ [27880; 37322]%N ++ runes_of_ascii "
-@tag( 7 )
-    float ,	int32 x_y_z, repeat roots { zchar[ 10 ]
-    a1 ,
-    f32a
-    options1
-    `crlf
-line` , match _x
-    // @lengthOf(
-    as
-zchar {	1 : u8x ,""// no comment"" : float,	[4294967296, 10 ,""" ++ [233]%N ++ runes_of_ascii "t" ++ [233]%N ++ runes_of_ascii """ , """ ++ [28040; 24687]%N ++ runes_of_ascii """
-, 1 ] :u128 // trailing space 
-,
-    [ ""\" ++ [233]%N ++ runes_of_ascii """ ,//x
-42 // " ++ [128512]%N ++ runes_of_ascii " emoji
-] :	stringy
-    ,
-[ 1 // " ++ [27880; 37322]%N ++ runes_of_ascii "
-,""\n""
-]:falsey
-    // a // b
-    , } ,  string  charz  @calculatedFrom( """" ) ,
-    }
-,	char[]	options1
-    `
-`
-,
-//	t
-/// triple
-u8x{ repeat msg_type	matchKey `u8 x,` , } , A
-@lengthOf( //x
-pack
-    ) //	t
-, i64
-stringy ,
-}
-packet i8i8{ i64_
-u128
-,@lengthOf( u8x//
-) repeat
-float64 f32a ,@calculatedFrom(
-    ""`tick`"" ) pack
-`" ++ [233]%N ++ runes_of_ascii "` ,
-uint64 Z9_ @calculatedFrom("""" ) `tab	here` , }
-")).
-Eval vm_compute in ("<<<M1076>>>" ++ check (runes_of_ascii "
-packet// `tick` ""quote"" 'q'
-BodyLength
-{ @rightPad (	)int8
-// @lengthOf(
-// c
-BodyLength  @calculatedFrom(	""packet"" )
-// c
-/// triple
-`
-`, u8x
-calculatedFrom
-    ,//x
-repeat
-    f32a {
-zchar[ 3 ] BodyLength , match i8i8 // " ++ [128512]%N ++ runes_of_ascii " emoji
-as A{
-    3  : packetx , ""CRC32"" //x
-:
-options1
-}  , } , @leftPad
-( ' ' )@lengthOf( Header ) repeat
-len string_ ,
-@tag( 4294967296 // @lengthOf(
-)@calculatedFrom(""" ++ [233]%N ++ runes_of_ascii "t" ++ [233]%N ++ runes_of_ascii """ )len
-repeatCount
-,  u64 i64_
-`{ , }`	, i16 o , @lengthOf( repeatCount	) @lengthOf(
-Header ) @rightPad(  '\x00'
-    //x
-    ) repeat options1{ // c
-roots @calculatedFrom(
-    ""1""// c
-)
-    `tab	here` ,repeat // @lengthOf(
-options1 zchar , repeat a1{
-    u128 {match Z9_ as x {
-    ""`tick`"" :o, ""`tick`""// packet A { u8 x, }
-:  pack , [ 255 ]
-    : Header ,3 : asx ,
-[ 255 , //	t
-""CRC32""
-]  : charz }, } ,}, char[10 ] stringy ,
-    } ,// " ++ [27880; 37322]%N ++ runes_of_ascii "
-@leftPad( )
-// packet A { u8 x, }
-// a // b
-char[
-007] len`doc` , }")).
-Eval vm_compute in ("<<<M492>>>" ++ check (runes_of_ascii "packet roots { } root packet metadata{ repeat //	t
-float32 int ,	_x @lengthOf(
-    packetx //
-) `
-` , repeat Packet Header
-, @tag( 0 // trailing space 
-)/// triple
-float32 msg_type
-    @calculatedFrom(
-""\" ++ [233]%N ++ runes_of_ascii """// a // b
-)  , char[
-0 ] BodyLength , len
-@calculatedFrom(	""" ++ [28040; 24687]%N ++ runes_of_ascii """ ) // trailing space 
-`tab	here` ,	}
-root packet calculatedFrom
-{ @rightPad ( ' '
-)
-    tag
-@calculatedFrom(""// no comment"")
-    // " ++ [27880; 37322]%N ++ runes_of_ascii "
-    , crc @calculatedFrom(""\" ++ [233]%N ++ runes_of_ascii """ ), @lengthOf( u128
-// a // b
-//x
-) @lengthOf(
-chars)
-repeat
-    lengthOf`tab	here` // a // b
-, @tag( 007)
-    char[]
-    roots , @calculatedFrom(""" ++ [233]%N ++ runes_of_ascii "t" ++ [233]%N ++ runes_of_ascii """ ) repeat zchar[ 0 ] chars `crlf
-line`  , // `tick` ""quote"" 'q'
-@calculatedFrom(""a\\"" )	options1 ,
-    // " ++ [27880; 37322]%N ++ runes_of_ascii "
-    @rightPad ( // " ++ [27880; 37322]%N ++ runes_of_ascii "
-)
-    Z9_ { float32 x_y_z @lengthOf( asx // @lengthOf(
-)
-    , repeat float32 asx , f32 zchar
-`" ++ [28040; 24687; 31867; 22411]%N ++ runes_of_ascii "`
-    , char[ 007 ] Packet
-`a\`
-,
-} ,
-}")).
-Eval vm_compute in ("<<<M4462>>>" ++ check (runes_of_ascii "
+Eval vm_compute in ("<<<M4530>>>" ++ check (runes_of_ascii "
 
   packet
 
-    _x{
-	u ,
-
-@lengthOf(len ) match
-
-    f32a as Pad {
-""packet""	:
-metadata ,
-
-""CRC32""
-	:  x_y_z
-[""abc"" ,
-	""{,}""	] :Logon,}
-
+len {@calculatedFrom(
+""`tick`""	)  repeat zchar[
+    00	]chars //	t
+      `a\` ,
+    u8x  
+      // trailing space 
+  // a // b
+MetaDataX 
+`line1
+line2`
 // c
-    	,
 
-    zchar[ 7 ]
-a1 ,
-@tag(65535 
-)	@tag(	0123456789 
-) 
-    //x
-    @lengthOf(	asx)	repeat i16 	 // @lengthOf(
-	tag`{ , }`	// `tick` ""quote"" 'q'
-  ,
-@leftPad( '\x00' 
-) 
-match
-    i64_
-as 
-x 
-{  0  :  crc
+	,
+	@calculatedFrom(
+	""a\""b"" )
+
+match matchKey
+as
+    asx
+{
+	[ ""CRC32"" ,
+""a\""b"" ] // " ++ [27880; 37322]%N ++ runes_of_ascii "
+
+  :
+    msg_type ,
+
+},
+
+    i8 string_	@calculatedFrom(
+	""{,}"" 
+)	,@lengthOf(lengthOf 
+    //
+)	zchar[
+    42 ]
+_x 
+    // packet A { u8 x, }
+    	/// triple
+  `line1
+line2`
+	, 
+@lengthOf(
+
+asx
+	)
+	repeat 	 // `tick` ""quote"" 'q'
+  	int8
+
+    Header
+, 
+repeat
+	crc
+    {
+
+    int8
+i64_//x
+	@calculatedFrom( ""{,}"" ) 
+, }
     ,
+repeat _x	i8i8`line1
+line2`
 
-[ 
-	//	t
-	// trailing space 
-      ""// no comment""
+,float64 	 // trailing space 
+  stringy
+    ,  MetaDataX{
 
-    ] 
-:	uint8x ,
-    42
-// a // b
-// trailing space 
-	  :  string_
-, 007
+    charz
+{	int16  matchKey ,repeat	i64_ 
+,
 
-:trueish
+    char[
+00 ]
+
+Z9_ `
+`	,	match As 
+    //x
+    as
+
+Packet
+
+{
+	3
+:
+crc ,[
+    //	t
+  	// @lengthOf(
+
+1 , 
+00
+    ] :
+Header 	 // " ++ [27880; 37322]%N ++ runes_of_ascii "
+		, 255
+    :_x
+
+    ,
+	42 :
+
+    body
 
 ,
-	[  10
-]  // " ++ [128512]%N ++ runes_of_ascii " emoji
-	:
 
-rootA
-""" ++ [28040; 24687]%N ++ runes_of_ascii """
+    [
 
-    :	// trailing space 
-	len , }	//
+    0]
+    :  chars
+
+    [4294967296 ,
+    65535  ]
+
+    :
+    chars ,}
+
+    /// triple
+  	// @lengthOf(
+	, } 
+
+    // trailing space 
+
+// @lengthOf(
+  ,	}	, }
+
+MetaData
+    falsey{
+char[
+
+    255
+    ]
+u128 ,
+u8
+
+    Header`tab	here`,
+
+string
+float , }root
+packet
+int
+{ Logon i64_ ,@calculatedFrom(  ""1"" ) zchar {
+u {	zchar[ 255
+]
+
+Pad ,}
+
+    ,	stringy
+{  Pad metadata
+	`u8 x,`
+,	}
+,
+repeat
+
+    string i8i8
+
+, char[] As @calculatedFrom(
+""\n""  )
+,	} 
+    // " ++ [27880; 37322]%N ++ runes_of_ascii "
+	  ,
+@lengthOf(
+packetx	// a // b
+  )  @lengthOf( 
+i64_ )
+	body `line1
+line2`
+
+    , @lengthOf(roots  ) match
+// `tick` ""quote"" 'q'
+
+// trailing space 
+  MetaDataX as uint8x
+
+{ 	 // `tick` ""quote"" 'q'
+[
+    007
+    /// triple
+    // " ++ [27880; 37322]%N ++ runes_of_ascii "
+
+	,	//x
+
+	255 
+,00
+	] : 
+body  // c
+  ,
+	[	65535
+    , ""1"" 
+,	// `tick` ""quote"" 'q'
+	1
 	, 
-@rightPad(
-'\x00' 	 // trailing space 
-	) @tag( 
-//
-  00) 
-@calculatedFrom(
-""" ++ [233]%N ++ runes_of_ascii "t" ++ [233]%N ++ runes_of_ascii """ )  // c
-    char[]
-    float 
-@calculatedFrom(""\n""
-    )
-
-,  repeat f32
-
+""\n""	//	t
+		,  1,
+	""CRC32"" 
+,
+	//	t
+0 
+] : 
 trueish
 
-    `crlf
-line` , 
-} 	 // @lengthOf(
- 
-")).
-Eval vm_compute in ("<<<M798>>>" ++ check (runes_of_ascii "
-options
-    { MetaDataX = zchar[
-10 ]
-    ;
-Pad
-=	true // trailing space 
-;asx=
-    false ;Header=""" ++ [233]%N ++ runes_of_ascii "t" ++ [233]%N ++ runes_of_ascii """ roots = ""it's""
-} // " ++ [128512]%N ++ runes_of_ascii " emoji
-options { // a // b
-a1
-    =
-//	t
-//	t
-false
-;
-asx	= '\x00'
-; zchar  =""packet"" BodyLength	= """"// trailing space 
-As
-= true } packet rootA//x
-{} packet	calculatedFrom { repeat	char[]
-matchKey ,  repeat trueish {	i16 repeatCount @lengthOf( rootA ) , } , uint64
-i8i8 , int64 _x @calculatedFrom(
-""// no comment"") ,
-@lengthOf(tag ) repeat
-    leftPad	, @lengthOf( o  ) // " ++ [128512]%N ++ runes_of_ascii " emoji
-zchar
-    // packet A { u8 x, }
-    @calculatedFrom(""`tick`""
-) ,tag @lengthOf(
-x_y_z
-    // `tick` ""quote"" 'q'
-    ) ,
-A@lengthOf(
-    uint8x )`u8 x,` ,/// triple
-roots { u128
-    ,	} , } root // " ++ [27880; 37322]%N ++ runes_of_ascii "
-packet uint8x
-{A // " ++ [27880; 37322]%N ++ runes_of_ascii "
-@lengthOf(
-    x )`" ++ [233]%N ++ runes_of_ascii "` , }")).
-Eval vm_compute in ("<<<M924>>>" ++ check (runes_of_ascii "  packet Pad{	@leftPad ( '\x00' ) @tag( 42
-    )@rightPad ( ' ')
-    uint8 asx
+    ,
+
+    }  ,
+uint64
+	Foo , zchar {	metadata
+	@lengthOf(Pad
+	) 	 //	t
+`crlf
+line`
+,
+
+    match
+	u
+	as
+
+    charz  { 65535	: 
+    //x
+  	int 
+[
+    ""1""  ]: 
     // c
-    ,
-@rightPad
-    (	)string a1,	u8x  @calculatedFrom( """ ++ [128512]%N ++ runes_of_ascii """ )	,	@tag(
-    1 ) zchar[ 255 ] u128 ,@tag( 00)match
-//x
-//	t
-u128
-as zchar { 3 :	tag , [ """ ++ [233]%N ++ runes_of_ascii "t" ++ [233]%N ++ runes_of_ascii """ ]
-: // " ++ [27880; 37322]%N ++ runes_of_ascii "
-int ,
+    	//
+	a1 , 
+[
+4294967296
+
+    ,00
+
+, """ ++ [233]%N ++ runes_of_ascii "t" ++ [233]%N ++ runes_of_ascii """
+, 
+""" ++ [28040; 24687]%N ++ runes_of_ascii """,
+00]
+
+:  matchKey , 
+[ 
+""a\\""
+]
+	: Logon 
+,
+
+}	,	repeat 
+rootA	{	int16 Foo
+    @lengthOf( rootA	// " ++ [27880; 37322]%N ++ runes_of_ascii "
+
+  )
+
+    ,options1
+    `u8 x,`  // trailing space 
+	,},
+
 }
+
+    ,match 
+chars
+	as
+
+u 
+    // " ++ [128512]%N ++ runes_of_ascii " emoji
+
+  // " ++ [128512]%N ++ runes_of_ascii " emoji
+
+{[	//
+
+""it's""
+,
+	007 ,
+
+""" ++ [233]%N ++ runes_of_ascii "t" ++ [233]%N ++ runes_of_ascii """,
+	""abc"" ,
+	""\n"", 
+    // " ++ [128512]%N ++ runes_of_ascii " emoji
+	// " ++ [27880; 37322]%N ++ runes_of_ascii "
+"""" 	 // c
+    ]  :repeatCount, 65535 
+      // " ++ [128512]%N ++ runes_of_ascii " emoji
+    :Z9_
+
+, 
+[
+007
+
     ,
-    @leftPad	( ) zchar[7 ]
-    zchar
+""abc""
+,
+""// no comment""
+	,""" ++ [28040; 24687]%N ++ runes_of_ascii """ ]
+:
+
+    falsey 
+,  00
+
+:string_
+	},
+
+char
+repeatCount
+,
+
+} packet  Foo  {
+
+char[]
+    a1 
+@calculatedFrom("""" )	`line1
+line2` ,
+uint16// a // b
+      MetaDataX
+// packet A { u8 x, }
+
+`say ""hi""`
+
+    ,
+	char[] A
+
+, 
+    // trailing space 
+
+// " ++ [128512]%N ++ runes_of_ascii " emoji
+    f64
+	int
+
 @lengthOf(
-lengthOf ) , repeat Packet Foo	`a\`  , @lengthOf(
+Pad
+)  , u32 BodyLength,
+
+float64  trueish @lengthOf(
+lengthOf
+
+    ) 
+// `tick` ""quote"" 'q'
+		// trailing space 
+  `crlf
+line` , @tag(
+	255 ) match 
+Z9_ as
+
+    tag{ [ ""a\""b"" ,4294967296
+
+,
+    ""{,}""  ,
+
+    ""{,}""  /// triple
+
+  ] :
+
+Pad  ,
+	1	:
+lengthOf ,
+	0123456789 :
+
 msg_type
+
+    , ""// no comment""	:
+	BodyLength
+,[  ""1""
+    ]
+	:
+string_
+[ 3 
+,
+    0,
+
+1 ,	1
+
+, ""\" ++ [233]%N ++ runes_of_ascii """  // " ++ [27880; 37322]%N ++ runes_of_ascii "
+	,
+
+"""" , 00
+// c
+] 	 // c
+: asx	} ,  body`say ""hi""`	// `tick` ""quote"" 'q'
+
+, }
+
+    options
+{ x  =
+
+'0'
+    ;
+
+    u8x // " ++ [128512]%N ++ runes_of_ascii " emoji
+    =u64 ;  
+      // c
+  //	t
+	string_	=
+""a\""b""
+    }")).
+Eval vm_compute in ("<<<M667>>>" ++ check (runes_of_ascii "options  {Logon  =
+    int64 zchar =
+'0' ; x_y_z =  ""abc""
+    ; } root  packet Packet { @calculatedFrom( ""// no comment""
+) char[] o// c
+, @lengthOf( uint8x )
+i32 metadata , @rightPad (
+' '
+    )
+repeat
+Foo{ BodyLength { i8i8 `{ , }` , },
+    match _x as charz
+{42 : Pad  ,
+} , Pad zchar ,string
+charz ,
+    // trailing space 
+    }
+,
+    char[ 1 ]
+    Foo,
+@lengthOf(  f32a ) @leftPad (	'\x00' ) match calculatedFrom as
+    u8x
+{  0123456789	: Packet  ""a\""b"" // packet A { u8 x, }
+: //
+charz,
+    4294967296 :
+    f32a [ ""packet"" ]
+: zchar ,""packet""	: a1 ,  } ,
+_x
+    {repeat char[ 0 ]
+len , }
+,
+    zchar[
+//	t
+// c
+0123456789 ]pack @lengthOf( asx ),} packet Pad {
+// trailing space 
+//	t
+@lengthOf(
+u8x ) char[ 0 ]options1 `it's` , @lengthOf( body )
+u128
+{ Z9_ { string_ @calculatedFrom(""CRC32"" ) `" ++ [233]%N ++ runes_of_ascii "`
+,} //	t
+,match
+    Header as o
+    {""packet"" : i64_ , """ ++ [28040; 24687]%N ++ runes_of_ascii """ :leftPad ,3:i64_
+    , } , int8 body
+@calculatedFrom( ""a\\""
+) `
+`  ,
+repeat Pad	{ // " ++ [128512]%N ++ runes_of_ascii " emoji
+zchar[1 ]metadata @lengthOf(  Z9_ ) `// not a comment`
+,
+    rootA metadata ,
+    u32 i8i8
+@lengthOf( roots )
+,
+    repeat
+//	t
+// @lengthOf(
+uint64 pack, }, } ,
+char[ 0 ] chars
+// " ++ [128512]%N ++ runes_of_ascii " emoji
+// `tick` ""quote"" 'q'
+, i8 msg_type`" ++ [233]%N ++ runes_of_ascii "`,match u as body// c
+{ 42  : zchar} ,@leftPad
+(' '
+)asx {repeat repeatCount Z9_ ,
+repeat//	t
+zchar[ 4294967296] //
+Pad
+    , }, @tag( 255	)@tag( 255) char[ 0123456789 ]u8x ,
+    //	t
+    @calculatedFrom(""CRC32"" )// trailing space 
+char[3 ]
+Pad	`" ++ [233]%N ++ runes_of_ascii "` , @lengthOf( x_y_z ) @rightPad (// `tick` ""quote"" 'q'
 )@rightPad
 (
-'0' ) @tag(255 ) string
-    tag
-//	t
-//
-@lengthOf(roots // a // b
-)
-    `say ""hi""` , repeat// " ++ [128512]%N ++ runes_of_ascii " emoji
-Logon f32a,}packet uint8x {
-    // trailing space 
-    @rightPad	(' ' )@lengthOf(
-    Header
-)zchar[
-7 ] u ,} // " ++ [128512]%N ++ runes_of_ascii " emoji
-MetaData a1
-    { rootA msg_type ,
-u16
     /// triple
-    lengthOf `it's`,f32
-u8x
-, }
+    ) Foo {
+    match asx	as lengthOf
+{["""" , 00 ,  ""1"", ""// no comment"",	4294967296 , 007,
+""{,}""
+    ] : MetaDataX , }
+    ,
+}
+    , } // c
+root packet crc
+// " ++ [27880; 37322]%N ++ runes_of_ascii "
+//x
+{ repeat i32	body
+    , float64
     // c
-    packet	trueish {}")).
-Eval vm_compute in ("<<<M560>>>" ++ check (runes_of_ascii "
-packet
-    a1 /// triple
-{ @lengthOf(
-    As
-)uint16 // " ++ [128512]%N ++ runes_of_ascii " emoji
-matchKey
-`line1
-line2` , }
-options { pack = 7 } packet
-    // " ++ [128512]%N ++ runes_of_ascii " emoji
-    packetx {@calculatedFrom(  ""packet"" ) int8 metadata
-@lengthOf(
-metadata
-    ) , @tag(	7 )
-    lengthOf @lengthOf( u128) // " ++ [128512]%N ++ runes_of_ascii " emoji
-, @rightPad (
-    )Header
-@lengthOf( msg_type
-)  ``,
-leftPad ,
-}
-packet
-    // packet A { u8 x, }
-    string_{ }  packet f32a { @leftPad ( '0'
-) @leftPad ( ' '
-    /// triple
-    )
-@leftPad (' '
-) x_y_z { char charz @calculatedFrom(
-""""  )
-//	t
-// trailing space 
-,
-repeat rootA
-repeatCount ,
-    // packet A { u8 x, }
-    repeat u128 f32a `// not a comment` ,},
-// " ++ [27880; 37322]%N ++ runes_of_ascii "
-// trailing space 
-} // packet A { u8 x, }")).
-Eval vm_compute in ("<<<M688>>>" ++ check (runes_of_ascii "options { msg_type
-=65535
-    ; a1 = """ ++ [128512]%N ++ runes_of_ascii """
-; Foo
-=  ""\" ++ [233]%N ++ runes_of_ascii """matchKey
-=
-'0'
-; chars = """ ++ [28040; 24687]%N ++ runes_of_ascii """
-    //	t
-    } packet lengthOf {
-// c
-//x
-} MetaData body
-{
-    A len // packet A { u8 x, }
-`" ++ [28040; 24687; 31867; 22411]%N ++ runes_of_ascii "` ,}
-packet
-    o{
-@rightPad //x
-(
-'\x00' ) int
-// `tick` ""quote"" 'q'
-// packet A { u8 x, }
-roots , repeat
-    u8x
-`tab	here`	,
-i32 x_y_z @lengthOf( Logon
-) `line1
-line2`,
-    _x
-Z9_ , @lengthOf(
-zchar )  i32 msg_type `doc`
-,	@rightPad ( ' '	) i8 options1
-    //
-    ,
-@lengthOf(packetx) charz
-@lengthOf(
-// packet A { u8 x, }
-// trailing space 
-o
-    ) , @rightPad ( ' ' ) match /// triple
-packetx as leftPad{
-    [ ""{,}""  ,
-""" ++ [128512]%N ++ runes_of_ascii """
-    ]:
-    charz	,
-    } ,	}
-")).
-Eval vm_compute in ("<<<M4005>>>" ++ check (runes_of_ascii "root packet i8i8 {
-    @tag(3)
-    @tag(3)
-    match u128 as f32a {
-        //	t
-        [0123456789, 0123456789, 42, ""a\""b"", ""// no comment""] : Foo,
-    },
-}
-
-packet Z9_ {
-    @leftPad('0')
-    char[] Pad @lengthOf(Z9_) ``,
-    u8x u `doc`,
-    @calculatedFrom(""{,}"")
-    falsey {
-        u8x f32a,
-    },
-    repeat i8 metadata,
-    repeat i64 i8i8,
-    zchar[1] u,
-    string crc `crlf
-    line`,// " ++ [128512]%N ++ runes_of_ascii " emoji
-    match i8i8 as matchKey {
-        [0, 0123456789] : uint8x,
-    },
-    metadata @calculatedFrom(""CRC32"") `
-    `,
-    @lengthOf(_x)
-    @tag(7)
-    @tag(00)
-    repeat Packet matchKey `it's`,// " ++ [128512]%N ++ runes_of_ascii " emoji
-}")).
-Eval vm_compute in ("<<<M386>>>" ++ check (runes_of_ascii "// @lengthOf(
-root packet uint8x { repeat
-x_y_z //	t
-{ zchar[ 10
-] stringy@calculatedFrom(// `tick` ""quote"" 'q'
-""x y"" ) , // a // b
-}//	t
-,
-    i64
-body @lengthOf( options1
-    ) `u8 x,` ,lengthOf  {
-    // packet A { u8 x, }
-    match T
-as
-len {007
-    :
-    BodyLength 1 :	_x ""\n"" :	chars , 255
-: /// triple
-a1 , } , f64 roots
-@lengthOf(  Foo)
-    , lengthOf @lengthOf(  x_y_z
-    )`
-`,	repeat // `tick` ""quote"" 'q'
-string tag
-`tab	here` , } , // @lengthOf(
-} options
-{
-    falsey = char[ 0123456789
-    ]roots
-    // `tick` ""quote"" 'q'
-    = int64 // packet A { u8 x, }
-; A	= 007 }
-")).
-Eval vm_compute in ("<<<M1274>>>" ++ check (runes_of_ascii "packet charz // @lengthOf(
-{ // packet A { u8 x, }
-repeat float64 chars , }root
-packet
-    //x
-    repeatCount  { @rightPad( '\x00'	) Header
-    // a // b
-    i64_
-    ,
-} MetaData calculatedFrom { u8x
-Z9_
-`a\`	,  } packet string_ { @tag(0123456789 ) repeat o `` , //	t
-len	@lengthOf( roots
-    ) ,@calculatedFrom( ""1""
-)	@calculatedFrom(""it's""
+    Header`u8 x,`
+, string Foo
+@lengthOf( packetx // trailing space 
 )
-    uint64 Packet@lengthOf( T )
-    , body ,
-    match matchKey as MetaDataX{[
-    // packet A { u8 x, }
-    7 , 42	]	:
-    stringy
-, } , } root
-packet A
-// a // b
-// a // b
-{ @calculatedFrom(""a\""b"" )	int8 packetx ,	}
-")).
-Eval vm_compute in ("<<<M33>>>" ++ check (runes_of_ascii "root/// triple
-packet int{
-f32 i8i8 , uint8x /// triple
-zchar
-    `// not a comment`// a // b
+    , char[] As `" ++ [28040; 24687; 31867; 22411]%N ++ runes_of_ascii "`, string_ @calculatedFrom( ""\" ++ [233]%N ++ runes_of_ascii """ )
+`it's`,
+@calculatedFrom( ""CRC32"" )
+    @tag( 1
+    )	repeat trueish	packetx // @lengthOf(
 ,
-    u64 u8x @lengthOf( u ) ,char[] i64_@lengthOf( crc
-    ), @lengthOf( packetx
-    )metadata i64_
-, } packet a1	{ zchar[ 65535
-] float, zchar[ 00
-    //	t
-    ]
-    matchKey
-,
-} options { crc =u64 } MetaData leftPad { trueish string_ ,  uint64 Header
-`" ++ [28040; 24687; 31867; 22411]%N ++ runes_of_ascii "` , }
-    // " ++ [128512]%N ++ runes_of_ascii " emoji
-    MetaData//x
-tag { zchar
-chars
-// " ++ [27880; 37322]%N ++ runes_of_ascii "
-//x
-,  repeatCount  lengthOf`
-` , i16
-u /// triple
-`tab	here` , lengthOf
-a1 ,u16 o
-    , char
-i64_  `two words` , }
-//x
+}
+MetaData f32a
+{	char[] Header ,
+}
 ")).
-Eval vm_compute in ("<<<M4509>>>" ++ check (runes_of_ascii "// " ++ [128512]%N ++ runes_of_ascii " emoji
-options {
-    Packet = char[]
-    a1 = 0;
-    BodyLength = char[];
-}
-
-MetaData BodyLength {
-    T string_ `" ++ [28040; 24687; 31867; 22411]%N ++ runes_of_ascii "`,
-    x_y_z stringy `say ""hi""`,
-    char Packet `" ++ [28040; 24687; 31867; 22411]%N ++ runes_of_ascii "`,
-    leftPad Packet,
-}
-
-packet packetx {
-    //x
-    match uint8x as T {
-        [
-            0123456789, 255, 10, ""`tick`"", ""// no comment"",
-            ""abc""
-        ] : i64_,
-        [""{,}"", ""a\""b""] : int,
-        [0123456789, 65535, 255, 255] : repeatCount,
-        //x
+Eval vm_compute in ("<<<M4291>>>" ++ check (runes_of_ascii "packet T {
+    @lengthOf(Foo)
+    @tag(10)
+    @lengthOf(rootA)
+    chars `it's`,
+    repeat char roots,
+    @tag(0)
+    match charz as leftPad {
+        0 : tag,
     },
-    repeat char[255] A,
-    repeat Foo `tab	here`,
-}")).
-Eval vm_compute in ("<<<M761>>>" ++ check (runes_of_ascii "MetaData a1
-{
-// `tick` ""quote"" 'q'
-//	t
-_x  asx ,} MetaData Packet
-{	BodyLength
-    int, } root packet x	{ @leftPad(' ' ) f64
-// a // b
-// `tick` ""quote"" 'q'
-repeatCount@lengthOf(
-x // c
-) `line1
-line2`
-, @rightPad// @lengthOf(
-('\x00'
-    )match i8i8 as pack{ [ 10
-, """ ++ [128512]%N ++ runes_of_ascii """, 10
-, ""a	b"" ,
-1// trailing space 
-,
-// c
-// " ++ [128512]%N ++ runes_of_ascii " emoji
-7 ] : leftPad [ 255 , 10 ,0 , 1 , """ ++ [233]%N ++ runes_of_ascii "t" ++ [233]%N ++ runes_of_ascii """, ""x y""  ]: A """ ++ [28040; 24687]%N ++ runes_of_ascii """ :
-    u, 00 :  charz ,
-    // a // b
-    """ ++ [28040; 24687]%N ++ runes_of_ascii """
-:
-len 0:
-    As, } ,
-f32 x
-`" ++ [233]%N ++ runes_of_ascii "` , }	MetaData x {}")).
-Eval vm_compute in ("<<<M4057>>>" ++ check (runes_of_ascii "MetaData rootA {
-}
-
-options {
-    rootA = '\x00'
-    zchar = '0'
-    rootA = float64;
-    trueish = 3
-    i64_ = float64;
-}
-
-options {
-    body = '0';
-    T = ""CRC32"";
-    matchKey = char[];
-}
-
-packet rootA {
-    @lengthOf(Z9_)
+    Z9_ u128,
+    int32 int @calculatedFrom(""\n""),
+    @lengthOf(int)
+    Z9_ {
+        repeat char[] calculatedFrom `crlf
+        line`,
+        zchar[0] o @calculatedFrom(""\" ++ [233]%N ++ runes_of_ascii """),
+        u8x {
+            _x,// @lengthOf(
+            zchar[3] stringy @lengthOf(T),
+            // trailing space 
+            uint8 body,
+            char[] falsey @calculatedFrom(""// no comment"") `" ++ [233]%N ++ runes_of_ascii "`,/// triple
+        },
+    },
+    @tag(1)
+    @calculatedFrom(""a\\"")
+    // c
     @rightPad('0')
-    Packet calculatedFrom,
+    i32 tag @calculatedFrom(""a\""b"") `crlf
+    line`,
+    match BodyLength as f32a {
+        [
+            3, ""`tick`"", ""`tick`"", 007, ""1"",
+            65535, 1, 0
+        ] : Z9_,
+        [""CRC32"", ""a\\""] : chars,
+        ""a\""b"" : roots,
+        1 : f32a,
+        // " ++ [27880; 37322]%N ++ runes_of_ascii "
+    },
+    trueish {
+        //
+        /// triple
+        zchar {
+            match Pad as tag {
+                [0123456789, 00, 7, ""a	b"", ""CRC32""] : options1,
+                // @lengthOf(
+            },
+            pack {
+                zchar[10] chars,
+            },
+            u `crlf
+            line`,
+            repeat int32 _x `two words`,
+        },
+    },// trailing space 
+    falsey As,
 }
 
-packet body {
-    match metadata as asx {
-        3 : Header,
-        3 : packetx,
-        [10] : Packet,
-        """" : pack,
-        10 : pack,
-        [255, 00, """", ""it's""] : x,
+options {
+    falsey = ""abc"";
+    Foo = false;
+}
+
+root packet A {
+    @lengthOf(uint8x)
+    match u8x as msg_type {
+        [007, 00] : u128,
+        [
+            255, ""{,}"", 10, ""// no comment"", """",
+            """ ++ [128512]%N ++ runes_of_ascii """
+        ] : T,
+        255 : string_,
+        ""`tick`"" : As,
+    },
+}
+
+MetaData chars {
+    char[65535] roots,
+    i64 u128,
+    char[42] pack,
+}//x")).
+Eval vm_compute in ("<<<M959>>>" ++ check (runes_of_ascii "
+MetaData lengthOf  {A chars `two words` , u string_
+,roots
+Logon	,u8
+x_y_z , u32
+    lengthOf
+`{ , }` ,
+    } packet
+asx{ @rightPad(
+)	chars `{ , }`, @calculatedFrom( ""a\\""
+) repeat i64
+x ,@calculatedFrom( ""it's"")@calculatedFrom( ""\n"" )
+@leftPad
+( '\x00' ) match
+uint8x as leftPad {	42 // packet A { u8 x, }
+: u128, [	65535] : Logon
+// `tick` ""quote"" 'q'
+// " ++ [128512]%N ++ runes_of_ascii " emoji
+10 :
+u128 ,
+""\n"" :matchKey ,
+} , // c
+leftPad	{
+    packetx
+    @calculatedFrom( ""x y"" ) , }
+, i16 int, @calculatedFrom( ""`tick`"" ) uint32 a1@lengthOf(
+i64_), match zchar as
+    roots
+{
+    42 :
+    i64_	,
+4294967296 :x_y_z 10
+:
+    //
+    As [""it's"" ,
+""\" ++ [233]%N ++ runes_of_ascii """ , 255
+    ,
+""\n"" ]
+    : Packet , } , @tag( 0123456789 ) match
+    lengthOf
+as	stringy{
+[ """ ++ [28040; 24687]%N ++ runes_of_ascii """ ,""\n"",
+""1"",1 ,	""CRC32"" , 65535 ,
+    // trailing space 
+    65535] : rootA , 00 :trueish
+,""CRC32"": Foo , } ,
+@lengthOf( i64_ ) repeat
+u8x {zchar[ 7]charz @lengthOf( i8i8 ), }	,
+} packet
+a1
+    { @rightPad( '\x00' )calculatedFrom ,
+    i8i8, @lengthOf(
+    chars )
+    @rightPad ('\x00' /// triple
+) len{ string crc,repeat chars `" ++ [233]%N ++ runes_of_ascii "`
+, }, x @calculatedFrom(
+""" ++ [28040; 24687]%N ++ runes_of_ascii """) , // c
+@tag(
+    4294967296)match float as
+    Packet
+{ 1:
+    T,	[ 4294967296 , ""it's"", 007
+,
+""CRC32""
+] // packet A { u8 x, }
+:	a1
+    }
+,
+    @lengthOf(
+    // c
+    matchKey )rootA @lengthOf(
+pack// " ++ [128512]%N ++ runes_of_ascii " emoji
+),
+@lengthOf(
+body
+)
+    repeat x_y_z`` , calculatedFrom chars  ,
+@calculatedFrom( """ ++ [128512]%N ++ runes_of_ascii """ ) chars pack ,
+    // a // b
+    }options {x_y_z = 4294967296; } // " ++ [27880; 37322]%N)).
+Eval vm_compute in ("<<<M3860>>>" ++ check (runes_of_ascii "MetaData MetaDataX {
+    i8i8 roots,
+    zchar[65535] rootA `// not a comment`,// a // b
+    x_y_z leftPad `u8 x,`,
+    char[] stringy `it's`,
+}// packet A { u8 x, }
+
+packet Foo {
+    string lengthOf,
+    i32 packetx @lengthOf(asx) `{ , }`,
+    repeat falsey `two words`,
+    char[] roots @calculatedFrom(""" ++ [28040; 24687]%N ++ runes_of_ascii """),//
+    leftPad @calculatedFrom(""" ++ [28040; 24687]%N ++ runes_of_ascii """) `" ++ [233]%N ++ runes_of_ascii "`,
+    @tag(42)
+    zchar[65535] As @lengthOf(a1) `doc`,
+}
+
+root packet charz {
+    @tag(4294967296)
+    string options1 `tab	here`,
+}
+
+packet leftPad {
+}
+
+packet metadata {
+    //	t
+    i32 BodyLength @calculatedFrom(""it's"") `say ""hi""`,
+    @rightPad()
+    // " ++ [128512]%N ++ runes_of_ascii " emoji
+    chars {
+        repeat falsey {
+            uint64 tag @lengthOf(len),
+            char[42] packetx @calculatedFrom(""abc""),
+        },
+        Header {
+            zchar[00] charz @calculatedFrom(""x y""),
+            uint8 calculatedFrom @calculatedFrom(""\n""),
+            trueish `" ++ [28040; 24687; 31867; 22411]%N ++ runes_of_ascii "`,
+            string_ @calculatedFrom(""// no comment"") `it's`,
+        },
+        string crc,
+    },// " ++ [128512]%N ++ runes_of_ascii " emoji
+    @calculatedFrom(""1"")
+    @calculatedFrom(""" ++ [28040; 24687]%N ++ runes_of_ascii """)
+    @tag(7)
+    i8 Foo,
+    i8 a1 @calculatedFrom(""{,}"") ``,
+    repeat falsey {
+        o @calculatedFrom(""abc"") `
+                `,
+        zchar[42] matchKey,
+    },
+    i64 As,
+    //	t
+    // `tick` ""quote"" 'q'
+    repeat As,
+    repeat int64 string_,
+}
+//	t")).
+Eval vm_compute in ("<<<M4289>>>" ++ check (runes_of_ascii "root packet a1 {
+    uint64 body,
+    @lengthOf(rootA)
+    char[1] zchar,
+    BodyLength,
+    string_,
+    char[] float @lengthOf(lengthOf),//
+    uint32 asx `" ++ [28040; 24687; 31867; 22411]%N ++ runes_of_ascii "`,
+    char[] uint8x @calculatedFrom(""abc""),
+    @tag(255)
+    @calculatedFrom(""a\\"")
+    zchar[3] options1,
+}
+
+packet charz {
+    @rightPad(' ')
+    matchKey @lengthOf(u) `u8 x,`,
+    @lengthOf(len)
+    @lengthOf(falsey)
+    u @calculatedFrom(""a\\""),
+    match i8i8 as Packet {
+        [""a	b""] : roots,
+        ""abc"" : trueish,
+        [""a\\"", 65535] : asx,
+        0123456789 : a1,
+        1 : i64_,
+    },
+    match len as Header {
+        [
+            0, 0123456789, 7, 0, ""\n"",
+            ""a\\""
+        ] : o,
+        ""x y"" : crc,
+        [3, ""\" ++ [233]%N ++ runes_of_ascii """] : lengthOf,
+        [10, ""x y""] : u8x,
+        1 : Packet,
+        007 : Z9_,
+    },
+    @calculatedFrom(""packet"")
+    @tag(65535)
+    repeat Pad rootA,
+    @tag(4294967296)
+    @lengthOf(stringy)
+    crc @lengthOf(uint8x) `" ++ [28040; 24687; 31867; 22411]%N ++ runes_of_ascii "`,
+}
+
+// @lengthOf(
+MetaData u8x {
+    len calculatedFrom,// packet A { u8 x, }
+    u16 asx,
+}
+
+MetaData Logon {
+    u16 chars ``,
+    A matchKey `a\`,
+    char[007] Header,
+    len uint8x,
+    A Packet `line1
+        line2`,
+    string trueish `u8 x,`,
+}")).
+Eval vm_compute in ("<<<M127>>>" ++ check (runes_of_ascii "root packet As// `tick` ""quote"" 'q'
+{
+    @calculatedFrom( ""{,}""	)zchar[ 4294967296
+    // packet A { u8 x, }
+    ]As ,@tag( 7 ) repeat
+    pack
+    {body
+    {// trailing space 
+zchar[
+65535 //x
+] MetaDataX `doc`
+, string_ @lengthOf( // " ++ [27880; 37322]%N ++ runes_of_ascii "
+Logon  ) , i64 MetaDataX@calculatedFrom( """" )// " ++ [27880; 37322]%N ++ runes_of_ascii "
+`a\`, //x
+repeat char[] Foo,	} ,
+/// triple
+// packet A { u8 x, }
+},@lengthOf( MetaDataX
+    ) @calculatedFrom(
+""\n""	) @lengthOf( float )
+char[ 0123456789 ] a1 @calculatedFrom( ""a\""b"") ,
+repeat msg_type  { // `tick` ""quote"" 'q'
+repeat f64 Packet`a\` , int64 asx@calculatedFrom( ""{,}"" )`" ++ [233]%N ++ runes_of_ascii "`  ,zchar[3  ]
+    metadata	,	zchar[
+00 ] x_y_z
+    @calculatedFrom( ""CRC32""
+) , }, } packet calculatedFrom // a // b
+{ match calculatedFrom as BodyLength{ 65535
+: Foo ,
+    }, match
+    int as falsey {  42 : body, [ ""abc""
+// " ++ [128512]%N ++ runes_of_ascii " emoji
+// " ++ [27880; 37322]%N ++ runes_of_ascii "
+,
+    ""\n"" , ""abc""
+,""" ++ [28040; 24687]%N ++ runes_of_ascii """	]:stringy
+    // `tick` ""quote"" 'q'
+    , [0123456789
+, ""{,}""
+,
+42
+    , 1
+]// " ++ [27880; 37322]%N ++ runes_of_ascii "
+: trueish , ""`tick`"" :metadata ,  [ ""1"" , ""a	b"" , 42
+]
+: zchar}
+    ,repeat zchar[  4294967296 ]stringy `line1
+line2`
+, } options // @lengthOf(
+{stringy= // packet A { u8 x, }
+' '/// triple
+; }")).
+Eval vm_compute in ("<<<M521>>>" ++ check (runes_of_ascii "// `tick` ""quote"" 'q'
+packet msg_type {
+    // c
+    uint8 leftPad ,  } packet roots {@tag(  3 )
+// a // b
+// `tick` ""quote"" 'q'
+string_ //x
+@lengthOf(body )
+,  Header@lengthOf( Z9_
+//x
+/// triple
+) , repeat zchar[ 007 ] roots	,	string_
+msg_type `crlf
+line` , Logon // c
+@lengthOf(	pack // c
+)
+`say ""hi""` ,@rightPad ( '\x00' )
+@leftPad
+    // a // b
+    ( '0' )
+    repeat u8 float `it's` /// triple
+, @calculatedFrom( ""\n"" )	@lengthOf(  falsey // " ++ [128512]%N ++ runes_of_ascii " emoji
+)
+    msg_type{ match
+Packet
+    as tag
+{[
+    10 ,
+007 //x
+]
+    :int , 4294967296
+    : //
+asx
+,} ,
+uint32 string_ @lengthOf(
+    _x ) `two words`
+    //x
+    ,
+    _x
+    //
+    , } ,	f32a {f32 body , uint16  u128 ,
+matchKey	@lengthOf(Packet ) , } ,
+repeat
+    zchar[
+0123456789 ] // a // b
+float `say ""hi""` ,f32 i8i8 `{ , }`, } root packet	options1 {@tag( 0
+    )
+packetx
+, repeat
+float64 BodyLength , }
+    options { Pad =
+    // packet A { u8 x, }
+    true
+// a // b
+/// triple
+; crc = 007; // @lengthOf(
+}
+MetaData packetx{ roots  Packet  `tab	here` , // " ++ [128512]%N ++ runes_of_ascii " emoji
+asx
+    len , }
+
+")).
+Eval vm_compute in ("<<<M732>>>" ++ check (runes_of_ascii "// " ++ [27880; 37322]%N ++ runes_of_ascii "
+options  { i8i8
+    //	t
+    = 007 ; Logon =	3
+; }	packet u128 {BodyLength{ char[ //x
+7
+] int, u16 _x@lengthOf( // packet A { u8 x, }
+u)	, i8 rootA
+    `tab	here`
+,
+    stringy MetaDataX`u8 x,` , } , @tag(007 ) f32a @calculatedFrom( """ ++ [28040; 24687]%N ++ runes_of_ascii """ )
+    `it's`
+,
+// c
+// a // b
+@calculatedFrom( ""x y""
+    )char[007 ] string_ //x
+@calculatedFrom( """ ++ [128512]%N ++ runes_of_ascii """ )
+    , // c
+@calculatedFrom( ""// no comment""
+) @calculatedFrom( ""a	b"" )  f64
+As , // `tick` ""quote"" 'q'
+zchar[7]x `
+` ,
+    /// triple
+    u16
+o, repeat float32 roots `{ , }`
+    ,
+@leftPad (
+)// c
+repeatCount
+{ float64
+u8x `a\`
+// @lengthOf(
+// " ++ [27880; 37322]%N ++ runes_of_ascii "
+,rootA@lengthOf( //	t
+chars ) ,
+    match u128  as
+roots{
+// a // b
+//
+[
+""" ++ [128512]%N ++ runes_of_ascii """ ] : msg_type// c
+, ""\n"" :
+    u8x
+00 :
+crc
+    //x
+    } , },
+//x
+/// triple
+u16 lengthOf @calculatedFrom( // c
+""" ++ [233]%N ++ runes_of_ascii "t" ++ [233]%N ++ runes_of_ascii """  ),	}MetaData
+repeatCount{ zchar[ 0123456789
+] Logon , char[ 42	]  int	,}
+    options {}
+options // " ++ [128512]%N ++ runes_of_ascii " emoji
+{
+repeatCount = ""1""
+Z9_ = 255  string_ = ' '
+;  trueish = 3 ; crc =
+""packet""
+    ;}
+")).
+Eval vm_compute in ("<<<M1232>>>" ++ check (runes_of_ascii "options {
+    i64_ =
+// c
+// trailing space 
+""x y"";
+    chars
+// a // b
+//	t
+=
+    65535 metadata= i32; // trailing space 
+} root  packet
+chars { @lengthOf( /// triple
+chars
+    // " ++ [128512]%N ++ runes_of_ascii " emoji
+    ) repeat  Logon
+// " ++ [128512]%N ++ runes_of_ascii " emoji
+//	t
+{ string len @lengthOf(
+    crc ) //x
+,u128 @lengthOf( x )
+, } , }
+    packet chars
+{ @lengthOf(charz)@calculatedFrom( """ ++ [233]%N ++ runes_of_ascii "t" ++ [233]%N ++ runes_of_ascii """  )
+@calculatedFrom( """ ++ [128512]%N ++ runes_of_ascii """ )repeat
+    // " ++ [128512]%N ++ runes_of_ascii " emoji
+    repeatCount
+    Packet `u8 x,`,match
+rootA as
+    /// triple
+    falsey {
+    ""{,}""
+:
+As ,
+00
+: // " ++ [128512]%N ++ runes_of_ascii " emoji
+lengthOf ,
+""\n"" : u8x, """ ++ [233]%N ++ runes_of_ascii "t" ++ [233]%N ++ runes_of_ascii """  :T 3:
+    /// triple
+    calculatedFrom ,}, @leftPad ( )@calculatedFrom(
+    ""it's"" )	repeat crc
+    stringy`
+` ,@lengthOf(// `tick` ""quote"" 'q'
+metadata ) repeat falsey{ char[]
+Foo `a\` , match leftPad //	t
+as  BodyLength {
+""CRC32"": body , ""1"": x
+,""a\\"":	calculatedFrom,
+[
+    // @lengthOf(
+    1
+,00]
+:
+float }
+, repeat
+    char calculatedFrom , Foo { u64  Header `
+` ,}
+, } , }
+")).
+Eval vm_compute in ("<<<M4041>>>" ++ check (runes_of_ascii "  options
+    {LittleEndian =false
+
+;
+	FixedStringPadFromLeft=  false ;
+FixedStringPadChar =
+
+    ' ' ;
+
+    }packet	Fill { uint16
+
+    Qty
+
+    ,
+    uint64
+	clOrdID
+
+,repeat
+i64
+    Flags , }  packet
+
+    Ack	{zchar[  7
+
+]
+clOrdID ,
+
+    u64 
+lastPx
+, char[] Note 
+, repeat
+
+Fill , 
+int32 count	, }	packet
+    Quote {
+	u8	venue	, InRef40	{char[]
+Qty, 
+}
+, 
+zchar[
+    5
+
+]
+Flags, @rightPad	(
+
+    '\x00'
+
+    ) 
+char[ 12
+    ]
+    msgKind
+, }packet Logout 
+{ InSym79 {
+int32
+Qty,
+	Fill
+
+,
+char[
+    3 ] x
+,	repeat
+InNote29
+{ i16
+
+price , 
+Ack ,	f64 x ,
+zchar[ 8 
+]	count,}
+	, }
+    , }
+root packet 
+Logon {zchar[
+    1
+]
+
+sym
+,	u32
+count ,
+
+    u16	tag7 @lengthOf( Body) , match
+    count  as Body
+	{[ 122 
+, 152
+]
+:
+
+Ack
+,	118 
+:Logout
+
+    ,
+	61
+:Quote	,161
+:
+
+    Fill
+
+    ,  } ,
+    u32
+    Acct
+	@calculatedFrom( ""CRC32""
+    )
+
+    ,	} ")).
+Eval vm_compute in ("<<<M8>>>" ++ check (runes_of_ascii "packet leftPad
+    { @tag( 3 )
+    @tag( // trailing space 
+255 ) @tag( 7 ) Packet @calculatedFrom(
+    ""\n"" )
+    ,
+    @calculatedFrom(
+//x
+/// triple
+""abc""
+)
+    repeat
+    f32a
+    trueish `// not a comment` ,
+    match
+    /// triple
+    calculatedFrom
+as stringy { [	1
+,
+    // @lengthOf(
+    65535 ] :
+    u  ,}
+// `tick` ""quote"" 'q'
+/// triple
+, zchar[ 10 ] o `` , @lengthOf(calculatedFrom
+)
+char x_y_z ,char[] BodyLength ,stringy o
+`line1
+line2` ,
+@tag( 00 )options1  {// @lengthOf(
+float32 asx
+@lengthOf( roots ) ,
+// " ++ [128512]%N ++ runes_of_ascii " emoji
+// `tick` ""quote"" 'q'
+match Z9_
+as
+int
+    {""{,}""
+: A [ // " ++ [27880; 37322]%N ++ runes_of_ascii "
+""a\""b""  ,
+""it's""
+    ] :	repeatCount ,1 :
+    float , ""a\\"": zchar// `tick` ""quote"" 'q'
+[0 , ""abc"" ,0,  00,
+0
+    ,
+""" ++ [128512]%N ++ runes_of_ascii """ ]: T
+, 0123456789	: As , }
+    , }, @lengthOf(
+    msg_type ) i8
+matchKey , repeat
+len len `a\`
+,	}")).
+Eval vm_compute in ("<<<M383>>>" ++ check (runes_of_ascii "packet repeatCount{
+    @tag(1
+) @leftPad
+(' ')	@leftPad
+    (
+    // c
+    '\x00'
+    ) int16
+trueish
+@lengthOf( len) `// not a comment` ,@calculatedFrom(	""it's"")
+f64 trueish
+@lengthOf( pack ), i64
+/// triple
+//x
+int
+    `u8 x,`,  int16 Packet, repeat trueish{ char[ 65535 ] int @lengthOf( Foo ) `crlf
+line`
+    , },	match chars
+as u128 { 0123456789 :
+uint8x ,	""1""
+    : A
+    // `tick` ""quote"" 'q'
+    , ""packet""	:
+    matchKey
+,0
+: crc ,""abc"" :
+T ,} ,
+@rightPad (// " ++ [27880; 37322]%N ++ runes_of_ascii "
+) match
+//	t
+//x
+a1 as
+    u128 {3
+//
+// @lengthOf(
+:	lengthOf	, ""a\\"": trueish
+007 :
+rootA }
+    ,@leftPad ( ' '
+) string_ `tab	here`
+    , packetx
+    @lengthOf( Header ) , @tag(255	) @tag( 42 ) char[]packetx, // `tick` ""quote"" 'q'
+}
+    options { rootA // a // b
+=
+// c
+//	t
+' ' x_y_z = int8
+}")).
+Eval vm_compute in ("<<<M940>>>" ++ check (runes_of_ascii "
+root packet As
+{ repeat
+    //	t
+    x
+    msg_type ,}MetaData crc { // c
+u8 x , } root packet
+    // " ++ [128512]%N ++ runes_of_ascii " emoji
+    Logon{ @calculatedFrom(
+""1"" )
+@rightPad (  ' ') @leftPad
+( ) string msg_type @lengthOf(
+uint8x )	`a\`
+, match calculatedFrom
+as i8i8
+{ [
+""\" ++ [233]%N ++ runes_of_ascii """ ]  : options1 , // c
+1
+: asx
+, [ 42,
+42
+    //
+    ,//	t
+""" ++ [28040; 24687]%N ++ runes_of_ascii """// `tick` ""quote"" 'q'
+,"""" ,// " ++ [128512]%N ++ runes_of_ascii " emoji
+7] // @lengthOf(
+: x_y_z,  [// " ++ [27880; 37322]%N ++ runes_of_ascii "
+0//x
+] :
+    // packet A { u8 x, }
+    asx
+    //
+    7:
+    u8x [
+7
+    ] :u , } ,} MetaData repeatCount
+    { float Foo
+    , As //	t
+i8i8	,} packet tag {@leftPad (
+' '
+) match Z9_ as msg_type {
+    //
+    [ 10
+, ""a\""b"" ,0 ,255 , 7 ,0123456789 , 10
+]: Logon ,
+    """ ++ [233]%N ++ runes_of_ascii "t" ++ [233]%N ++ runes_of_ascii """: a1 , 7
+// packet A { u8 x, }
+/// triple
+: i64_  ,  255
+:	leftPad
+    }
+    , }
+")).
+Eval vm_compute in ("<<<M1099>>>" ++ check (runes_of_ascii "packet A
+{ repeat//
+Logon, match	falsey as
+    len { ""x y""
+: _x
+10 : Packet
+    1 : x ,
+    }, string
+_x , @calculatedFrom(
+    // " ++ [27880; 37322]%N ++ runes_of_ascii "
+    ""\" ++ [233]%N ++ runes_of_ascii """)
+    char[
+    10 ] leftPad  `doc`
+    ,
+    }
+packet tag {@calculatedFrom(""" ++ [128512]%N ++ runes_of_ascii """ )	repeat  Logon { match
+    a1 as asx {
+[ 0123456789
+, 3 ] : T , 1 : Foo ,// " ++ [27880; 37322]%N ++ runes_of_ascii "
+[
+42 ,
+    42 ]
+    // " ++ [27880; 37322]%N ++ runes_of_ascii "
+    :  i64_	,
+[007 //
+]
+:
+Header , }
+    , repeat zchar[ 0
+] As, repeat char body
+    ,
+},} packet
+    u
+{ @calculatedFrom(
+    """ ++ [233]%N ++ runes_of_ascii "t" ++ [233]%N ++ runes_of_ascii """ ) @calculatedFrom( // trailing space 
+""abc""	)
+    @tag(
+00
+    //x
+    )	string_ ,
+    repeat string crc
+    , match
+trueish as Foo {
+// trailing space 
+//
+[10 , 255 ] : float
+    } , match As as zchar{
+    /// triple
+    10:T } ,
+//
+//x
+}")).
+Eval vm_compute in ("<<<M3900>>>" ++ check (runes_of_ascii "MetaData roots {
+    charz matchKey `two words`,
+    char[65535] T `// not a comment`,
+    char[] tag,
+    string a1 `two words`,
+}
+
+root packet stringy {
+    repeat roots {
+        repeat calculatedFrom len,
+    },
+    @tag(42)
+    @rightPad('0')
+    @tag(007)
+    f32 lengthOf @lengthOf(tag) `crlf
+        line`,
+    int32 chars,
+    zchar[3] rootA @calculatedFrom(""a\""b""),
+    @rightPad()
+    @calculatedFrom(""" ++ [128512]%N ++ runes_of_ascii """)
+    @tag(0123456789)
+    Foo {
+        char[] u8x @lengthOf(charz),
+        A,
+    },
+    match repeatCount as body {
+        ""\n"" : T,
+        [""" ++ [128512]%N ++ runes_of_ascii """, 255] : lengthOf,
+    },
+    @calculatedFrom(""x y"")
+    u8 packetx @calculatedFrom(""CRC32"") `tab	here`,
+}")).
+Eval vm_compute in ("<<<M4366>>>" ++ check (runes_of_ascii "root packet options1 {
+    float @calculatedFrom(""a	b""),
+    @leftPad()
+    match lengthOf as f32a {
+        ""1"" : f32a,
+        ""{,}"" : falsey,
+        // a // b
+    },
+    // a // b
+    // packet A { u8 x, }
+}
+
+packet T {
+    @tag(7)
+    @lengthOf(f32a)
+    @rightPad()
+    char[] msg_type @calculatedFrom(""\" ++ [233]%N ++ runes_of_ascii """) `" ++ [28040; 24687; 31867; 22411]%N ++ runes_of_ascii "`,
+    options1 u128 `// not a comment`,
+    // packet A { u8 x, }
+    @rightPad(' ')
+    char[1] metadata @calculatedFrom(""" ++ [128512]%N ++ runes_of_ascii """) `doc`,
+}
+
+packet u8x {
+    roots @lengthOf(f32a),
+    @calculatedFrom(""a\""b"")
+    @tag(00)
+    @leftPad('\x00')
+    MetaDataX {
+        int @calculatedFrom(""`tick`"") `
+        `,
     },
 }")).
-Eval vm_compute in ("<<<M890>>>" ++ check (runes_of_ascii "
+Eval vm_compute in ("<<<M528>>>" ++ check (runes_of_ascii "
+packet x_y_z // " ++ [27880; 37322]%N ++ runes_of_ascii "
+{ x_y_z @calculatedFrom(""CRC32"" )
+, x{ char[	0123456789 ]
+    msg_type @lengthOf( float
+    ), body
+    calculatedFrom `line1
+line2`
+, match
+Header
+as stringy
+    { [ 255 ] :x , 10: options1 // trailing space 
+, } ,
+    } , repeat char[] options1 `u8 x,`// " ++ [128512]%N ++ runes_of_ascii " emoji
+, metadata @calculatedFrom(""\" ++ [233]%N ++ runes_of_ascii """
+    //
+    )
+`` , string
+falsey ,
+    @rightPad
+    // packet A { u8 x, }
+    ( ' '
+) @tag( 007 ) string repeatCount ,
+    options1 @calculatedFrom(
+// c
+//
+""packet"")// @lengthOf(
+,
+@lengthOf(
+    BodyLength ) char[] matchKey//x
+@calculatedFrom( ""a	b"" ),} // packet A { u8 x, }")).
+Eval vm_compute in ("<<<M400>>>" ++ check (runes_of_ascii "packet crc {
+// packet A { u8 x, }
+// trailing space 
+Logon ,
+    } options { msg_type = '\x00'
+;
+    }
+    packet falsey {
+char[
+0123456789
+] calculatedFrom@calculatedFrom( ""packet""//
+)`say ""hi""`, match As as o { 65535// packet A { u8 x, }
+: A , """" : _x , ""`tick`"" :zchar,
+0123456789 :calculatedFrom , } ,
+    @tag( 00 )  As {
+char[] calculatedFrom ,
+} , float32 zchar
+, char[ 255 ] lengthOf,
+    @lengthOf(chars
+    // " ++ [27880; 37322]%N ++ runes_of_ascii "
+    )
+@lengthOf( // c
+a1 ) body  @calculatedFrom(""// no comment"" )
+`crlf
+line`	,} root  packet
+    _x
+{ @calculatedFrom(
+    ""a\\""
+) repeat
+i32	o ,}")).
+Eval vm_compute in ("<<<M364>>>" ++ check (runes_of_ascii "
+packet chars  { repeat
+    u64 As`" ++ [233]%N ++ runes_of_ascii "` ,@tag( 0 )repeat
+T metadata
+    ``	,
+    }packet Z9_{
+    @rightPad
+    (//
+'0'
+    // " ++ [128512]%N ++ runes_of_ascii " emoji
+    )
+    match u as
+lengthOf
+    {
+""abc""/// triple
+: T
+, ""CRC32"" //x
+:  matchKey
+[ """ ++ [233]%N ++ runes_of_ascii "t" ++ [233]%N ++ runes_of_ascii """ ,  """ ++ [28040; 24687]%N ++ runes_of_ascii """, 65535, 65535 , ""x y""
+    ]
+: metadata""it's"" : i8i8, // packet A { u8 x, }
+255 : trueish , """":u128 ,	} , } MetaData u8x {
+zchar[ 255
+]  zchar ,
+    // `tick` ""quote"" 'q'
+    uint32 uint8x
+`" ++ [233]%N ++ runes_of_ascii "`, uint8 trueish ,
+    // packet A { u8 x, }
+    i64	falsey
+,
+_x MetaDataX ,string
+_x
+// trailing space 
+//
+, } //	t")).
+Eval vm_compute in ("<<<M4083>>>" ++ check (runes_of_ascii "
+
+  packet o{
+repeat
+	MetaDataX	,
+
+    uint64 f32a  /// triple
+
+`" ++ [233]%N ++ runes_of_ascii "`
+,
+
+    f32
+packetx`doc`	,
+leftPad  {
+repeat len x ,zchar[ 0123456789
+    // packet A { u8 x, }
+
+	]tag
+	@lengthOf( 
+MetaDataX
+
+)
+    ,
+    chars
+{ 
+zchar[
+        // " ++ [27880; 37322]%N ++ runes_of_ascii "
+		// `tick` ""quote"" 'q'
+	65535 ]
+u8x
+
+    `" ++ [28040; 24687; 31867; 22411]%N ++ runes_of_ascii "`
+	,	u16
+	BodyLength	@calculatedFrom(
+
+    ""`tick`""  ) 
+`line1
+line2`	, 
+char[]
+stringy 
+,	repeat
+
+    i64_
+charz	`crlf
+line`  , // trailing space 
+
+	} 
+	    // packet A { u8 x, }
+	  ,f32  msg_type
+	,  }
+,
+
+    x ``
+
+,}
+")).
+Eval vm_compute in ("<<<M793>>>" ++ check (runes_of_ascii "options{ Header = ' ' } root
+packet lengthOf{ uint8 chars , @leftPad (  '\x00' ) repeat
+    u128 {match	Header as	msg_type{ 007	:roots  , }
+// c
+//	t
+, A
+o ,
+match Header as
+options1 { 00 : float,""1"": int , """ ++ [128512]%N ++ runes_of_ascii """
+: T , [
+    ""a\\""
+// " ++ [128512]%N ++ runes_of_ascii " emoji
+// packet A { u8 x, }
+,""// no comment""
+// a // b
+// packet A { u8 x, }
+] //	t
+: Foo	0123456789	:
+    matchKey , } ,repeat
+    o ,
+}, } packet x_y_z { repeat stringy A  , @tag(  42 ) char[
+    007 ]  Logon ,@leftPad ('\x00'
+    )  zchar[
+007 ]MetaDataX
+, }")).
+Eval vm_compute in ("<<<M1121>>>" ++ check (runes_of_ascii "options{ Logon =
+int32
+; x_y_z // trailing space 
+= ""1"" f32a = 007 BodyLength =
+    zchar[
+    // " ++ [27880; 37322]%N ++ runes_of_ascii "
+    3
+]
+    ; MetaDataX = false //x
+;
+} packet // c
+A { match A
+    as A {
+    42 : _x ,
+} , }
+packet int
+{ //
+_x
+    asx
+,	} packet	trueish {
+float	@calculatedFrom(
+// " ++ [128512]%N ++ runes_of_ascii " emoji
+// @lengthOf(
+"""" ) ,
+zchar[
+65535 ] Pad@calculatedFrom(""a	b"" ) `
+` //	t
+,
+}options
+    {
+    // " ++ [128512]%N ++ runes_of_ascii " emoji
+    f32a =	zchar[ 42 ] ; body = ""`tick`"" ; //
+As =
+    true
+    tag=3 ;
+packetx = true
+}
+")).
+Eval vm_compute in ("<<<M480>>>" ++ check (runes_of_ascii "MetaData
+    o {
+    } packet BodyLength { @tag(
+255 ) zchar[ 00 ]
+    leftPad@lengthOf( float  )
+`" ++ [233]%N ++ runes_of_ascii "` , }	packet
+asx {
+    @leftPad ( )	char[] _x,
+char[ 65535
+    ] /// triple
+trueish
+@calculatedFrom( ""a\""b"") ,
+int64 u
+    , match x as u8x { 255 //	t
+:/// triple
+o, 65535: asx ,  ""a\\""
+:
+string_
+, ""\" ++ [233]%N ++ runes_of_ascii """
+    : f32a, 65535
+: //	t
+x_y_z
+    ,  7
+:uint8x	}
+    , repeat msg_type { u128 charz `` , u64 options1	, repeat  a1 `` ,	} , repeatCount  ,}
+// c
+")).
+Eval vm_compute in ("<<<M1035>>>" ++ check (runes_of_ascii "// @lengthOf(
+MetaData	msg_type
+{} MetaData Logon { i64 uint8x ,
+o u128  ,}packet
+    body {
+@calculatedFrom( ""a	b"" ) uint8x`` ,} root
+packet  roots{ repeat len f32a `crlf
+line` , @rightPad( '\x00'
+) repeat i8i8
+    { zchar @lengthOf(
+    packetx ) `a\`,
+repeat
+msg_type , char[]
+    o `" ++ [233]%N ++ runes_of_ascii "`	, char[
+// " ++ [27880; 37322]%N ++ runes_of_ascii "
+//
+42
+]
+roots // @lengthOf(
+,
+//x
+// `tick` ""quote"" 'q'
+}  , } MetaData
+    pack
+//	t
+// trailing space 
+{
+repeatCount
+charz , }")).
+Eval vm_compute in ("<<<M4557>>>" ++ check (runes_of_ascii "packet msg_type {
+    uint32 i8i8 `say ""hi""`,
+    match packetx as asx {
+        0123456789 : msg_type,
+        1 : _x,
+    },
+    repeat As {
+        f32 body,
+        string msg_type,
+        f64 roots,
+    },
+    char[] options1 `say ""hi""`,
+}
+
+options {
+    msg_type = true;
+}
+
+packet crc {
+    asx x_y_z,
+}
+
+MetaData T {
+    T i8i8,
+    int16 zchar,
+    int tag,
+    string x_y_z `
+        `,
+    float32 metadata,
+}")).
+Eval vm_compute in ("<<<M704>>>" ++ check (runes_of_ascii "
+packet
+matchKey { @calculatedFrom( """ ++ [28040; 24687]%N ++ runes_of_ascii """
+) @lengthOf(
+lengthOf ) @calculatedFrom( """ ++ [28040; 24687]%N ++ runes_of_ascii """
+) match
+    /// triple
+    trueish as options1// trailing space 
+{ 42
+:matchKey,} , // " ++ [128512]%N ++ runes_of_ascii " emoji
+i64
+// trailing space 
+//x
+u8x , }MetaData float
+    { options1 u8x// " ++ [27880; 37322]%N ++ runes_of_ascii "
+, options1
+//
+//
+x	, string u `it's` , pack Header `u8 x,` ,
+char[] i64_ , } options{ } packet o  { } //
 MetaData
     //	t
-    u { int8 body
-,
-    string Packet ,} options // `tick` ""quote"" 'q'
-{
-    matchKey =float64
-;
+    MetaDataX
+{  }
+")).
+Eval vm_compute in ("<<<M3980>>>" ++ check (runes_of_ascii "packet chars {
 }
-packet roots	{ // " ++ [128512]%N ++ runes_of_ascii " emoji
-@calculatedFrom(	""abc"")
-match MetaDataX
-// " ++ [27880; 37322]%N ++ runes_of_ascii "
-// c
-as // " ++ [27880; 37322]%N ++ runes_of_ascii "
-_x
-    { 007
-    : o[ 42  , ""x y""
-, 65535 , 1 ,
-65535
-    ,""a	b""	,4294967296 ,
-00 ]:f32a ""CRC32"" : repeatCount  , ""CRC32"" :u128 ,	} ,} options { } MetaData uint8x
-{
-char[] u128 , body
-crc  `
-`,
-    lengthOf rootA ,// " ++ [128512]%N ++ runes_of_ascii " emoji
-i8 crc
+
+root packet chars {
+    zchar[00] lengthOf `" ++ [28040; 24687; 31867; 22411]%N ++ runes_of_ascii "`,
+}
+
+root packet tag {
+    @rightPad('\x00')
+    zchar[3] Foo @lengthOf(pack),
+    zchar[10] tag,
+    repeat uint32 int,
+    @rightPad('\x00')
+    @lengthOf(f32a)
+    @rightPad(' ')
+    Packet int,
+    match len as i8i8 {
+        10 : chars,
+    },
+    @calculatedFrom(""x y"")
+    Z9_ @calculatedFrom(""it's""),
+}//	t")).
+Eval vm_compute in ("<<<M1308>>>" ++ check (runes_of_ascii "// `tick` ""quote"" 'q'
+packet i8i8	{ // a // b
+@rightPad( )  body @calculatedFrom(// a // b
+""\" ++ [233]%N ++ runes_of_ascii """ ) , i64 Header @lengthOf(
+trueish
+) , @tag( 65535 )  @lengthOf( tag//
+) @tag( 255
+)
+    repeat
+    float32 repeatCount
+, char[
+1 ] rootA`u8 x,` , @lengthOf(
+    _x ) @lengthOf(
+    Header  ) @calculatedFrom( """"
+)
+//x
+// trailing space 
+i8i8 pack// trailing space 
 , }
 
 ")).
-Eval vm_compute in ("<<<M821>>>" ++ check (runes_of_ascii "
-options { }options
-{ } options
-{ }
-    packet options1 {
-/// triple
-// @lengthOf(
-repeat stringy repeatCount	, int64 rootA
-    ,@lengthOf(
-    T)
-// trailing space 
-// @lengthOf(
-chars Foo `line1
-line2`, i64_ , repeat tag roots, @calculatedFrom(""CRC32""
-) //x
-@calculatedFrom( """ ++ [233]%N ++ runes_of_ascii "t" ++ [233]%N ++ runes_of_ascii """)
-a1 @calculatedFrom(
-    /// triple
-    ""1"" )`two words` , }options {Logon =false uint8x	= ""x y""
-Header = ""a	b"" ;
-    calculatedFrom= true
-}
-")).
-Eval vm_compute in ("<<<M1153>>>" ++ check (runes_of_ascii "packet asx {@tag(// trailing space 
-00 )
-options1, string repeatCount @calculatedFrom( ""// no comment"" ) `// not a comment`,	@leftPad
-(
-    '0')
-@tag(
-    42) packetx @lengthOf(msg_type
-// " ++ [128512]%N ++ runes_of_ascii " emoji
-/// triple
-) `{ , }` // packet A { u8 x, }
-,  }  packet
-roots { @tag(	1 ) // `tick` ""quote"" 'q'
-@tag( 1 ) @lengthOf( // @lengthOf(
-BodyLength ) char[ 0123456789
-]MetaDataX , /// triple
-} MetaData	string_ { }
-")).
-Eval vm_compute in ("<<<M207>>>" ++ check (runes_of_ascii "MetaData
-T { Foo  lengthOf , string
-    //x
-    packetx
-    `// not a comment` , zchar[
-    //	t
-    0] metadata
+Eval vm_compute in ("<<<M1037>>>" ++ check (runes_of_ascii "packet crc {
+    match string_ as matchKey {
+7 : matchKey ,
+    007 :
+x//	t
+, 65535 :	BodyLength
+[
+    00
+    , 3 ] :
+u128
+,[  255 , 0  ] :
+leftPad ,
+""it's"":
 //x
-// `tick` ""quote"" 'q'
-`crlf
-line` ,
-x string_
-`line1
-line2` , } packet repeatCount {	char[ // `tick` ""quote"" 'q'
-255 ]
-A @calculatedFrom(""a\\"" )
-,float32
-    BodyLength @lengthOf(	_x )
-// c
-//
-`doc` , char[] trueish
-    // " ++ [128512]%N ++ runes_of_ascii " emoji
-    @calculatedFrom( ""packet"")
-    ,}
-")).
-Eval vm_compute in ("<<<M1269>>>" ++ check (runes_of_ascii "packet BodyLength
-{ @tag( 255 ) match tag as
-//	t
-// " ++ [128512]%N ++ runes_of_ascii " emoji
-x_y_z  {	7:Pad , ""a\""b"" :
-matchKey	, [ // `tick` ""quote"" 'q'
-42 , ""`tick`"" ,
-    //
-    ""// no comment""	, """"
-    // " ++ [128512]%N ++ runes_of_ascii " emoji
-    ,  1
-,
-"""" , 7 , """"
-    // `tick` ""quote"" 'q'
-    ]:
-stringy
-    , } , f64 repeatCount `a\`, }
-    // c
-    packet zchar// `tick` ""quote"" 'q'
-{	i8 _x `tab	here`	, } MetaData x { }
-")).
-Eval vm_compute in ("<<<M495>>>" ++ check (runes_of_ascii "  packet pack { u8
-len/// triple
-,@rightPad(  ) u64 A@calculatedFrom( ""\n"" )
-, // trailing space 
-@lengthOf(
-    o )
-    @leftPad() @leftPad (
-)int32 metadata, matchKey ,
-} MetaData matchKey { }packet rootA {}options { A= zchar[65535]float = // `tick` ""quote"" 'q'
-3
-    roots //	t
-= 7 Pad
-    // trailing space 
-    =
-    10 ;trueish =false;}
-
-")).
-Eval vm_compute in ("<<<M4137>>>" ++ check (runes_of_ascii "
-MetaData
-u{
-
-}
-	options
-	{  
-  // c
-// @lengthOf(
-float =
-int8
-    ;rootA
-	= false
-
-    ; As
-
-    = int16// `tick` ""quote"" 'q'
-	repeatCount 
-	// trailing space 
-	= 
-int16
-	;
-u8x
-	= 
-    //	t
-'\x00' }
-options{ repeatCount
-
-=
-0
-u128
-//
-	  = 
-false
-
-; i64_ 
 // trailing space 
-  // `tick` ""quote"" 'q'
-		=	'0'
-    ; 	 //	t
-}
-")).
-Eval vm_compute in ("<<<M200>>>" ++ check (runes_of_ascii "options
-{ }	MetaData
-Foo {
-char[
-    0 ]  Logon `u8 x,` ,// packet A { u8 x, }
-zchar[ 255 ]
-    calculatedFrom `
-` ,
-    zchar[ 00 ]o
-    `u8 x,` ,char[255 ]
-Header `a\`// `tick` ""quote"" 'q'
-, // a // b
-Pad
-    Pad ,
-    } packet i8i8 {
-    u32
-    // " ++ [128512]%N ++ runes_of_ascii " emoji
-    float,// @lengthOf(
-As @calculatedFrom( ""// no comment"" ) , }")).
-Eval vm_compute in ("<<<M1951>>>" ++ check (runes_of_ascii "MetaData
-    u { }  options {
-// c
-// @lengthOf(
-float = int8 ;rootA =false ; As =	int16 // `tick` ""quote"" 'q'
-repeatCount
-    // trailing space 
-    =
-    int16 int16
-; u8x =
-    //	t
-    '\x00' ; } options	{
-    repeatCount
-= 0
-u128
-    //
-    = false ; i64_
-// trailing space 
-// `tick` ""quote"" 'q'
-= '0' ; //	t
-}
-")).
-Eval vm_compute in ("<<<M1866>>>" ++ check (runes_of_ascii "MetaData
-    u { { }  options {
-// c
-// @lengthOf(
-float = int8 ;rootA =false ; As =	int16 // `tick` ""quote"" 'q'
-repeatCount
-    // trailing space 
-    =
-    int16
-; u8x =
-    //	t
-    '\x00' ; } options	{
-    repeatCount
-= 0
-u128
-    //
-    = false ; i64_
-// trailing space 
-// `tick` ""quote"" 'q'
-= '0' ; //	t
-}
-")).
-Eval vm_compute in ("<<<M2075>>>" ++ check (runes_of_ascii "MetaData
-    u { }  options {
-// c
-// @lengthOf(
-float = int8 ;rootA =false ; As =	int16 // `tick` ""quote"" 'q'
-repeatCount
-    // trailing space 
-    =
-    int16
-; u8x =
-    //	t
-    '\x00' ; } options	{
-    repeatCount
-= 0
-u128
-    //
-    = false ; caf" ++ [233]%N ++ runes_of_ascii "_1
-// trailing space 
-// `tick` ""quote"" 'q'
-= '0' ; //	t
-}
-")).
-Eval vm_compute in ("<<<M1933>>>" ++ check (runes_of_ascii "MetaData
-    u { }  options {
-// c
-// @lengthOf(
-float = int8 ;rootA =false ; As :	int16 // `tick` ""quote"" 'q'
-repeatCount
-    // trailing space 
-    =
-    int16
-; u8x =
-    //	t
-    '\x00' ; } options	{
-    repeatCount
-= 0
-u128
-    //
-    = false ; i64_
-// trailing space 
-// `tick` ""quote"" 'q'
-= '0' ; //	t
-}
-")).
-Eval vm_compute in ("<<<M1870>>>" ++ check (runes_of_ascii "MetaData
-    u {   options {
-// c
-// @lengthOf(
-float = int8 ;rootA =false ; As =	int16 // `tick` ""quote"" 'q'
-repeatCount
-    // trailing space 
-    =
-    int16
-; u8x =
-    //	t
-    '\x00' ; } options	{
-    repeatCount
-= 0
-u128
-    //
-    = false ; i64_
-// trailing space 
-// `tick` ""quote"" 'q'
-= '0' ; //	t
-}
-")).
-Eval vm_compute in ("<<<M555>>>" ++ check (runes_of_ascii "MetaData repeatCount { char[ 4294967296 ]
-BodyLength `it's` , } packet Header { zchar[255] chars `line1
-line2` ,BodyLength
-    // " ++ [128512]%N ++ runes_of_ascii " emoji
-    tag// a // b
-,	} options { body // packet A { u8 x, }
-=""" ++ [28040; 24687]%N ++ runes_of_ascii """// @lengthOf(
-}
-    // `tick` ""quote"" 'q'
-    packet f32a { char metadata `// not a comment` , } /// triple")).
-Eval vm_compute in ("<<<M3655>>>" ++ check (runes_of_ascii "
-options
-
-{
-LittleEndian = 
-true; 
-}
-packet Logon	{
-
-    u8
-	x,
-string
-	user
-,
-    } packet
-
-    Logout
-{ u16
-
-    reason
-    ,}
-
-packet
-Empty
-
-{
-	}  root
-
-packet
-    Frame{  u16
-    MsgType  , 
-u16
-    BodyLen
-@lengthOf(
-	Body )	,
-    u8
-
-    flags,Logon
-	Body
-    , u32
-trailer
-
-    ,}
-")).
-Eval vm_compute in ("<<<M3594>>>" ++ check (runes_of_ascii "packet
-A 
-{
-u8
-    a
-
-,
-} 
-packet
-
-    B { u16 b	,
-} packet
-	C
-{
-u32
-c	, 
-}
-root	packet	M
-{ u16
-    Kc
-,
-u16  Kb
-, u16
-Ka , match
-	Kc as
-    X{
-	9
-:
-
-A ,10
-:
-
-B  ,	}
-, 
-match
-
-Kb as Y {2 
-:
-C ,
-
-    1:	A
-    ,} , match
-	Ka  as
-Z
-
-    {
-1  :
-B,  } 
-,
-
-A,  B	,
-C 
-,
-
-    }
-")).
-Eval vm_compute in ("<<<M29>>>" ++ check (runes_of_ascii "// `tick` ""quote"" 'q'
-MetaData
-    pack {
-string MetaDataX , //
-zchar[ 65535
-] i8i8, pack rootA	`say ""hi""` ,
-    string_ Header `crlf
-line` ,
-int64
-string_ ,
-/// triple
-//	t
-char[]
-packetx
-,	} options
-    { trueish
-= ' '
-; i64_ =
-i16 pack = u16
-;
-len =false }	MetaData i64_{ }")).
-Eval vm_compute in ("<<<M725>>>" ++ check (runes_of_ascii "MetaData Header
-    {
-    char[ 1 ] As
+u128 ,}
     ,
-}  MetaData
-As { } root
-// a // b
-// `tick` ""quote"" 'q'
-packet packetx { // " ++ [27880; 37322]%N ++ runes_of_ascii "
-T  @lengthOf(
-    packetx) ,/// triple
-i8i8 {float
-`" ++ [233]%N ++ runes_of_ascii "`
-    ,  char[] A
-// `tick` ""quote"" 'q'
-// a // b
-,falsey lengthOf
-, }, repeat  roots ,}")).
-Eval vm_compute in ("<<<M613>>>" ++ check (runes_of_ascii "MetaData BodyLength {  zchar[ 00 ]a1 ,
-i64 A
-`" ++ [233]%N ++ runes_of_ascii "` , int8 i8i8
-`doc`
-,char[ 1 ]Header
-``// " ++ [128512]%N ++ runes_of_ascii " emoji
-, } options
-    {asx
-=
-false;
-    T=	""CRC32""u8x
-= ' '
-    float =
-3 } packet o /// triple
-{ @rightPad( '0'
-    // a // b
-    ) calculatedFrom `crlf
-line` ,}")).
-Eval vm_compute in ("<<<M1548>>>" ++ check (runes_of_ascii "packet
-//	t
-// trailing space 
-_x {
-// packet A { u8 x, }
-// c
-char[
-3
-    ] u8x @lengthOf(
-u8x ) , @calculatedFrom(""" ++ [128512]%N ++ runes_of_ascii """ """ ++ [128512]%N ++ runes_of_ascii """ // @lengthOf(
-)
-i16	Foo
-@lengthOf(	string_
-    )`doc`	, repeat	i64 metadata , @lengthOf( string_
-) i8 // c
-u  `line1
-line2`	,
-}
-")).
-Eval vm_compute in ("<<<M1661>>>" ++ check (runes_of_ascii "packet
-//	t
-// trailing space 
-_x {
-// packet A { u8 x, }
-// c
-char[
-3
-    ] u8x @lengthOf(
-` u8x ) , @calculatedFrom(""" ++ [128512]%N ++ runes_of_ascii """ // @lengthOf(
-)
-i16	Foo
-@lengthOf(	string_
-    )`doc`	, repeat	i64 metadata , @lengthOf( string_
-) i8 // c
-u  `line1
-line2`	,
-}
-")).
-Eval vm_compute in ("<<<M1529>>>" ++ check (runes_of_ascii "packet
-//	t
-// trailing space 
-_x {
-// packet A { u8 x, }
-// c
-char[
-3
-    ] u8x @lengthOf(
-) u8x , @calculatedFrom(""" ++ [128512]%N ++ runes_of_ascii """ // @lengthOf(
-)
-i16	Foo
-@lengthOf(	string_
-    )`doc`	, repeat	i64 metadata , @lengthOf( string_
-) i8 // c
-u  `line1
-line2`	,
-}
-")).
-Eval vm_compute in ("<<<M1497>>>" ++ check (runes_of_ascii "packet
-//	t
-// trailing space 
-_x 
-// packet A { u8 x, }
-// c
-char[
-3
-    ] u8x @lengthOf(
-u8x ) , @calculatedFrom(""" ++ [128512]%N ++ runes_of_ascii """ // @lengthOf(
-)
-i16	Foo
-@lengthOf(	string_
-    )`doc`	, repeat	i64 metadata , @lengthOf( string_
-) i8 // c
-u  `line1
-line2`	,
-}
-")).
-Eval vm_compute in ("<<<M1061>>>" ++ check (runes_of_ascii "packet uint8x{ char[	42
-    ]i64_ @lengthOf( crc
-// `tick` ""quote"" 'q'
+@calculatedFrom( """"
 //x
-) `a\`, @calculatedFrom(  ""{,}"") @calculatedFrom( ""\" ++ [233]%N ++ runes_of_ascii """ ) repeat
-    i16 rootA`// not a comment` , // @lengthOf(
+/// triple
+)
+match MetaDataX as int {[ 3
+] :
 As
-@lengthOf(falsey
-) , @lengthOf(pack
-)
-int64 packetx	, }
+    ,
+},
+    } packet falsey {
+}//
+options { metadata
+=// " ++ [128512]%N ++ runes_of_ascii " emoji
+255//x
+; }
 ")).
-Eval vm_compute in ("<<<M1612>>>" ++ check (runes_of_ascii "packet
+Eval vm_compute in ("<<<M4397>>>" ++ check (runes_of_ascii "// " ++ [128512]%N ++ runes_of_ascii " emoji
+options {
+}
+
+packet a1 {
+    // packet A { u8 x, }
+    //x
+    @lengthOf(Foo)
+    pack {
+        repeat matchKey leftPad,
+        zchar[7] zchar `{ , }`,
+        charz @lengthOf(x_y_z) `
+                `,
+    },
+}
+
+root packet roots {
+}
+
+options {
+    calculatedFrom = false;
+    o = int64;
+    u = ""a\\""
+    zchar = 42;
+}")).
+Eval vm_compute in ("<<<M1876>>>" ++ check (runes_of_ascii "MetaData
+    u { }  options options {
+// c
+// @lengthOf(
+float = int8 ;rootA =false ; As =	int16 // `tick` ""quote"" 'q'
+repeatCount
+    // trailing space 
+    =
+    int16
+; u8x =
+    //	t
+    '\x00' ; } options	{
+    repeatCount
+= 0
+u128
+    //
+    = false ; i64_
+// trailing space 
+// `tick` ""quote"" 'q'
+= '0' ; //	t
+}
+")).
+Eval vm_compute in ("<<<M2068>>>" ++ check (runes_of_ascii "MetaData
+   @tag u { }  options {
+// c
+// @lengthOf(
+float = int8 ;rootA =false ; As =	int16 // `tick` ""quote"" 'q'
+repeatCount
+    // trailing space 
+    =
+    int16
+; u8x =
+    //	t
+    '\x00' ; } options	{
+    repeatCount
+= 0
+u128
+    //
+    = false ; i64_
+// trailing space 
+// `tick` ""quote"" 'q'
+= '0' ; //	t
+}
+")).
+Eval vm_compute in ("<<<M2036>>>" ++ check (runes_of_ascii "MetaData
+    u { }  options {
+// c
+// @lengthOf(
+float = int8 ;rootA =false ; As =	int16 // `tick` ""quote"" 'q'
+repeatCount
+    // trailing space 
+    =
+    int16
+; u8x =
+    //	t
+    '\x00' ; } options	{
+    repeatCount
+= 0
+u128
+    //
+    = false ; i64_
+// trailing space 
+// `tick` ""quote"" 'q'
+= = '0' ; //	t
+}
+")).
+Eval vm_compute in ("<<<M1867>>>" ++ check (runes_of_ascii "MetaData
+    u } {  options {
+// c
+// @lengthOf(
+float = int8 ;rootA =false ; As =	int16 // `tick` ""quote"" 'q'
+repeatCount
+    // trailing space 
+    =
+    int16
+; u8x =
+    //	t
+    '\x00' ; } options	{
+    repeatCount
+= 0
+u128
+    //
+    = false ; i64_
+// trailing space 
+// `tick` ""quote"" 'q'
+= '0' ; //	t
+}
+")).
+Eval vm_compute in ("<<<M2017>>>" ++ check (runes_of_ascii "MetaData
+    u { }  options {
+// c
+// @lengthOf(
+float = int8 ;rootA =false ; As =	int16 // `tick` ""quote"" 'q'
+repeatCount
+    // trailing space 
+    =
+    int16
+; u8x =
+    //	t
+    '\x00' ; } options	{
+    repeatCount
+= 0
+u128
+    //
+    false = ; i64_
+// trailing space 
+// `tick` ""quote"" 'q'
+= '0' ; //	t
+}
+")).
+Eval vm_compute in ("<<<M2025>>>" ++ check (runes_of_ascii "MetaData
+    u { }  options {
+// c
+// @lengthOf(
+float = int8 ;rootA =false ; As =	int16 // `tick` ""quote"" 'q'
+repeatCount
+    // trailing space 
+    =
+    int16
+; u8x =
+    //	t
+    '\x00' ; } options	{
+    repeatCount
+= 0
+u128
+    //
+    = false  i64_
+// trailing space 
+// `tick` ""quote"" 'q'
+= '0' ; //	t
+}
+")).
+Eval vm_compute in ("<<<M1970>>>" ++ check (runes_of_ascii "MetaData
+    u { }  options {
+// c
+// @lengthOf(
+float = int8 ;rootA =false ; As =	int16 // `tick` ""quote"" 'q'
+repeatCount
+    // trailing space 
+    =
+    int16
+; u8x =
+    //	t
+     ; } options	{
+    repeatCount
+= 0
+u128
+    //
+    = false ; i64_
+// trailing space 
+// `tick` ""quote"" 'q'
+= '0' ; //	t
+}
+")).
+Eval vm_compute in ("<<<M4513>>>" ++ check (runes_of_ascii "packet BodyLength {
+}
+
+root packet Logon {
+    @tag(10)
+    @tag(0123456789)
+    //x
+    repeat float32 Pad,
+}
+
+packet f32a {
+    // `tick` ""quote"" 'q'
+    @rightPad(' ')
+    // a // b
+    repeat chars body,
+    x_y_z @lengthOf(matchKey),
+    repeat float64 Logon,
+    repeat zchar[4294967296] Foo,
+}")).
+Eval vm_compute in ("<<<M305>>>" ++ check (runes_of_ascii "options
+{
+}
+root
+    // a // b
+    packet x //	t
+{ match
+    len as x{ [	7 , 42 ,	007 , //x
+255 // trailing space 
+, ""// no comment""
+// `tick` ""quote"" 'q'
+// " ++ [128512]%N ++ runes_of_ascii " emoji
+]:x_y_z, ""`tick`"" : u128
+, 3 : string_
+    /// triple
+    ,
+[	""CRC32""  ] : trueish ,4294967296 :Foo ,
+[ 0 ]
+: lengthOf } , }")).
+Eval vm_compute in ("<<<M575>>>" ++ check (runes_of_ascii "packet	crc{ @calculatedFrom(
+    // `tick` ""quote"" 'q'
+    """" ) int8 len @lengthOf(lengthOf ) , @leftPad
+/// triple
+// " ++ [27880; 37322]%N ++ runes_of_ascii "
+('\x00' )  _x //x
+@calculatedFrom(
+    """ ++ [28040; 24687]%N ++ runes_of_ascii """
+), string leftPad @lengthOf(	packetx
+    )
+`say ""hi""` ,// packet A { u8 x, }
+} options
+{u128 =
+    65535 ; }")).
+Eval vm_compute in ("<<<M4457>>>" ++ check (runes_of_ascii "MetaData a1 {
+    //x
+    u8 u8x,
+}
+
+options {
+    float = '0';
+    // @lengthOf(
+    pack = string;
+}
+
+MetaData packetx {
+    tag Foo `
+        `,
+    uint8x asx,
+    uint16 body,
+    T x,// packet A { u8 x, }
+    float a1 `
+        `,
+    matchKey crc,
+}
+// a // b")).
+Eval vm_compute in ("<<<M1540>>>" ++ check (runes_of_ascii "packet
+//	t
+// trailing space 
+_x {
+// packet A { u8 x, }
+// c
+char[
+3
+    ] u8x @lengthOf(
+u8x ) MetaData @calculatedFrom(""" ++ [128512]%N ++ runes_of_ascii """ // @lengthOf(
+)
+i16	Foo
+@lengthOf(	string_
+    )`doc`	, repeat	i64 metadata , @lengthOf( string_
+) i8 // c
+u  `line1
+line2`	,
+}
+")).
+Eval vm_compute in ("<<<M1667>>>" ++ check (runes_of_ascii "packet
 //	t
 // trailing space 
 _x {
@@ -2156,70 +2087,175 @@ u8x ) , @calculatedFrom(""" ++ [128512]%N ++ runes_of_ascii """ // @lengthOf(
 )
 i16	Foo
 @lengthOf(	string_
-    )`doc`	, repeat	i64 metadata ,  string_
+    )`doc`	, repeat	'1'i64 metadata , @lengthOf( string_
 ) i8 // c
 u  `line1
 line2`	,
 }
 ")).
-Eval vm_compute in ("<<<M854>>>" ++ check (runes_of_ascii "
-packet// packet A { u8 x, }
-Z9_
-    {} MetaData	falsey { string
-    len
-    // " ++ [128512]%N ++ runes_of_ascii " emoji
-    `tab	here` ,
-/// triple
-// `tick` ""quote"" 'q'
-i32 asx ,
-    uint8 pack
-    , } options // " ++ [27880; 37322]%N ++ runes_of_ascii "
-{_x = // trailing space 
-true
+Eval vm_compute in ("<<<M1659>>>" ++ check (runes_of_ascii "packet
+//	t
+// trailing space 
+_x {
+// packet A { u8 x, }
+// c
+char[
+3
+    ] u8x @lengthOf(
+u8x ) , @calculatedFrom(""" ++ [128512]%N ++ runes_of_ascii """ // @lengthOf(
+)
+i16	Foo
+@lengthOf(	string_
+    )`doc`	%, repeat	i64 metadata , @lengthOf( string_
+) i8 // c
+u  `line1
+line2`	,
+}
+")).
+Eval vm_compute in ("<<<M1584>>>" ++ check (runes_of_ascii "packet
+//	t
+// trailing space 
+_x {
+// packet A { u8 x, }
+// c
+char[
+3
+    ] u8x @lengthOf(
+u8x ) , @calculatedFrom(""" ++ [128512]%N ++ runes_of_ascii """ // @lengthOf(
+)
+i16	Foo
+@lengthOf(	string_
+    ),	`doc` repeat	i64 metadata , @lengthOf( string_
+) i8 // c
+u  `line1
+line2`	,
+}
+")).
+Eval vm_compute in ("<<<M1630>>>" ++ check (runes_of_ascii "packet
+//	t
+// trailing space 
+_x {
+// packet A { u8 x, }
+// c
+char[
+3
+    ] u8x @lengthOf(
+u8x ) , @calculatedFrom(""" ++ [128512]%N ++ runes_of_ascii """ // @lengthOf(
+)
+i16	Foo
+@lengthOf(	string_
+    )`doc`	, repeat	i64 metadata , @lengthOf( string_
+) ) // c
+u  `line1
+line2`	,
+}
+")).
+Eval vm_compute in ("<<<M1646>>>" ++ check (runes_of_ascii "packet
+//	t
+// trailing space 
+_x {
+// packet A { u8 x, }
+// c
+char[
+3
+    ] u8x @lengthOf(
+u8x ) , @calculatedFrom(""" ++ [128512]%N ++ runes_of_ascii """ // @lengthOf(
+)
+i16	Foo
+@lengthOf(	string_
+    )`doc`	, repeat	i64 metadata , @lengthOf( string_
+) i8 // c
+u  `line1
+line2`")).
+Eval vm_compute in ("<<<M615>>>" ++ check (runes_of_ascii "
+MetaData
+    Header { int16 //	t
+i64_ , } packet
+u8x
+{@tag(4294967296 ) zchar[
+//	t
 // " ++ [27880; 37322]%N ++ runes_of_ascii "
-// " ++ [27880; 37322]%N ++ runes_of_ascii "
+255 ] MetaDataX`
+`,} options { pack = ""a	b"";crc =
+    true _x
+    =
+4294967296 ;Z9_ = ' ' } root packet// a // b
+repeatCount  { char[]
+u8x ,  }
+")).
+Eval vm_compute in ("<<<M4159>>>" ++ check (runes_of_ascii "options
+
+{
+    trueish
+
+= ""`tick`""
+string_ = """ ++ [233]%N ++ runes_of_ascii "t" ++ [233]%N ++ runes_of_ascii """
+    // c
+    	}root  packet
+
+    body{
+	stringy @calculatedFrom(
+    ""a	b""
+
+    ) `line1
+line2` 
+, }
+packet
+
+Logon
+
+{@leftPad (
+	' ' ) 	 //	t
+  u16
+
+string_  `u8 x,` 
+, }
+")).
+Eval vm_compute in ("<<<M4000>>>" ++ check (runes_of_ascii "packet len {
+    @tag(255)
+    repeat zchar[007] roots,
+    leftPad {
+        //	t
+        f32 calculatedFrom,
+        f32 lengthOf,
+        u32 calculatedFrom,
+    },
+    x x,
 }
 
-")).
-Eval vm_compute in ("<<<M1332>>>" ++ check (runes_of_ascii "// packet A { u8 x, }
-MetaData chars	{  Header  u128  ,
-BodyLength
-u8x//	t
-`two words` // " ++ [128512]%N ++ runes_of_ascii " emoji
-, uint8x
-Header// packet A { u8 x, }
-`say ""hi""` ,
-rootA //x
-A // c
-`{ , }` , char[ 00 ]	leftPad
-, i64 // a // b
-As , }
-")).
-Eval vm_compute in ("<<<M1125>>>" ++ check (runes_of_ascii "MetaData string_ {
-i32 packetx
-`doc`, }//
-packet zchar{ @rightPad
-    (' '
-)@calculatedFrom(""`tick`"" ) @calculatedFrom( ""CRC32"" // c
-)u8x
-    /// triple
-    @lengthOf(
-    Foo ) ,
-    }	root
-packet i8i8
-    { }
+MetaData u128 {
+    A i8i8 `two words`,
+}")).
+Eval vm_compute in ("<<<M3943>>>" ++ check (runes_of_ascii "options {
+}
 
+MetaData pack {
+    string T,
+    msg_type stringy `" ++ [233]%N ++ runes_of_ascii "`,
+}
+
+// " ++ [128512]%N ++ runes_of_ascii " emoji
+packet a1 {
+    // " ++ [128512]%N ++ runes_of_ascii " emoji
+    // packet A { u8 x, }
+    repeat i32 x,
+    i16 msg_type @calculatedFrom(""it's"") `two words`,
+}// " ++ [27880; 37322]%N)).
+Eval vm_compute in ("<<<M9>>>" ++ check (runes_of_ascii "options
+    {
+As= ""1"" ; matchKey = 0123456789 options1
+    =
+0123456789 ;// a // b
+asx// c
+=
+    ""CRC32"" ;
+    tag =00;
+}// trailing space 
+packet
+matchKey { @calculatedFrom(
+    ""abc""	) int32 repeatCount ,
+}
 ")).
-Eval vm_compute in ("<<<M925>>>" ++ check (runes_of_ascii "packet crc  {matchKey
-`tab	here`
-    ,
-    repeat f32a{ // trailing space 
-zchar  { string uint8x
-,
-repeat char[	4294967296 // trailing space 
-]
-msg_type ,} , roots{ zchar[ 7 ] u ,	},
-    uint64 chars ,} ,  }")).
 Eval vm_compute in ("<<<M1677>>>" ++ check (runes_of_ascii "options { { trueish = ""`tick`"" ; string_= """ ++ [233]%N ++ runes_of_ascii "t" ++ [233]%N ++ runes_of_ascii """
     // c
     } root
@@ -2256,68 +2292,57 @@ Logon packet {
 u16 string_ `u8 x,` ,
 }
 ")).
-Eval vm_compute in ("<<<M1831>>>" ++ check (runes_of_ascii "options { trueish = ""`tick`"" ; string_= """ ++ [233]%N ++ runes_of_ascii "t" ++ [233]%N ++ runes_of_ascii """
+Eval vm_compute in ("<<<M1826>>>" ++ check (runes_of_ascii "options { trueish = ""`tick`"" ; string_= """ ++ [233]%N ++ runes_of_ascii "t" ++ [233]%N ++ runes_of_ascii """
     // c
     } root
     packet body { stringy @calculatedFrom(
 ""a	b"" ) `line1
 line2` , }
 packet Logon {
+    @leftPad(
+    ' ' ) //	t
+u16 string_ `u8 x,` 
+}
+")).
+Eval vm_compute in ("<<<M1776>>>" ++ check (runes_of_ascii "options { trueish = ""`tick`"" ; string_= """ ++ [233]%N ++ runes_of_ascii "t" ++ [233]%N ++ runes_of_ascii """
+    // c
+    } root
+    packet body { stringy @calculatedFrom(
+""a	b"" ) `line1
+line2` , }
+ Logon {
     @leftPad(
     ' ' ) //	t
 u16 string_ `u8 x,` ,
-
-")).
-Eval vm_compute in ("<<<M1824>>>" ++ check (runes_of_ascii "options { trueish = ""`tick`"" ; string_= """ ++ [233]%N ++ runes_of_ascii "t" ++ [233]%N ++ runes_of_ascii """
-    // c
-    } root
-    packet body { stringy @calculatedFrom(
-""a	b"" ) `line1
-line2` , }
-packet Logon {
-    @leftPad(
-    ' ' ) //	t
-u16 string_ = ,
 }
 ")).
-Eval vm_compute in ("<<<M1115>>>" ++ check (runes_of_ascii "options { i64_ =
-true} root packet // c
-repeatCount { u32 Foo //	t
-, int8	rootA ,  zchar[
-0
-]
-MetaDataX ,	@calculatedFrom( ""a\""b"" ) char  o, // " ++ [128512]%N ++ runes_of_ascii " emoji
-}packet i64_ { } //
-packet Foo
-{ }
+Eval vm_compute in ("<<<M543>>>" ++ check (runes_of_ascii "// `tick` ""quote"" 'q'
+MetaData body{  zchar[ 0 ] asx // trailing space 
+`a\` , float crc
+,f32 trueish `crlf
+line`	,// " ++ [128512]%N ++ runes_of_ascii " emoji
+uint64 float ,body//	t
+u
+    `
+`
+    ,
+    int16 stringy //	t
+,}
 ")).
-Eval vm_compute in ("<<<M978>>>" ++ check (runes_of_ascii "MetaData
-As
-{
-    u128 packetx
-`" ++ [233]%N ++ runes_of_ascii "` //	t
-, tag	o,zchar[ // c
-255 ] rootA `two words`  , rootA msg_type	`it's`
-, u64 packetx , } MetaData T{
-char[
-3
-    ]
-    _x , }
-// trailing space 
+Eval vm_compute in ("<<<M605>>>" ++ check (runes_of_ascii "MetaData body {string	MetaDataX `" ++ [28040; 24687; 31867; 22411]%N ++ runes_of_ascii "`, }options{	zchar // packet A { u8 x, }
+=
+    false} packet chars// a // b
+{ @tag(
+42 )
+len roots ,@rightPad () Header @lengthOf( charz ) ,
+    }
 ")).
-Eval vm_compute in ("<<<M1010>>>" ++ check (runes_of_ascii "MetaData o
-//
-/// triple
-{
-    body	f32a `
-` ,
-i32 string_ `line1
-line2`, int64
-    //
-    matchKey
-    , string crc,zchar[ 4294967296	] msg_type
-    `crlf
-line`, u32 Packet ,}
+Eval vm_compute in ("<<<M295>>>" ++ check (runes_of_ascii "  MetaData x_y_z { string msg_type`" ++ [233]%N ++ runes_of_ascii "`, } packet chars{ repeat i32 metadata`say ""hi""` ,@leftPad ( ) @tag( 0123456789
+)repeat zchar[
+    // a // b
+    007]
+    //x
+    lengthOf , }
 ")).
 Eval vm_compute in ("<<<M3577>>>" ++ check (runes_of_ascii "packet A {
     u8 a,
@@ -2336,522 +2361,492 @@ root packet P {
     },
 }
 ")).
-Eval vm_compute in ("<<<M4457>>>" ++ check (runes_of_ascii "packet asx {
-}
-
-// packet A { u8 x, }
-options {
-    options1 = float64
-    leftPad = true;
-    MetaDataX = char[00];
-    roots = false
-}// " ++ [128512]%N ++ runes_of_ascii " emoji
-
-packet string_ {
-}")).
-Eval vm_compute in ("<<<M2195>>>" ++ check (runes_of_ascii "options{
+Eval vm_compute in ("<<<M323>>>" ++ check (runes_of_ascii "MetaData As  {
+// " ++ [128512]%N ++ runes_of_ascii " emoji
+// @lengthOf(
+a1 Pad , zchar[ 00 ] // `tick` ""quote"" 'q'
+body`// not a comment` ,
+crc uint8x `// not a comment` ,uint32
+packetx ``
+    ,}
+")).
+Eval vm_compute in ("<<<M1800>>>" ++ check (runes_of_ascii "options { trueish = ""`tick`"" ; string_= """ ++ [233]%N ++ runes_of_ascii "t" ++ [233]%N ++ runes_of_ascii """
+    // c
+    } root
+    packet body { stringy @calculatedFrom(
+""a	b"" ) `line1
+line2` , }
+packet Logon {
+    @leftPad")).
+Eval vm_compute in ("<<<M1835>>>" ++ check (runes_of_ascii "options { trueish = ""`tick`"" ; string_= """ ++ [233]%N ++ runes_of_ascii "t" ++ [233]%N ++ runes_of_ascii """
+    // c
+    } root
+    packet body { stringy @calculatedFrom(
+""a	b"" ) `line1
+line2` , }
+packet Logon {
+    @lef")).
+Eval vm_compute in ("<<<M2202>>>" ++ check (runes_of_ascii "options{
 _x
 = true
-} options
-@leftpad { o	= /// triple
-false
-    ; chars
-= ""\n"" } root packet	Pad
-/// triple
-// packet A { u8 x, }
-{	chars
-    // a // b
-    ,}")).
-Eval vm_compute in ("<<<M2346>>>" ++ check (runes_of_ascii "// c
-packet match { @lengthOf( metadata ) repeat lengthOf
-,a1{
-trueish	,// c
-repeat//	t
-MetaDataX , } , zchar[
-    42	] rootA // `tick` ""quote"" 'q'
-,
-    }
-")).
-Eval vm_compute in ("<<<M2325>>>" ++ check (runes_of_ascii "// c
-packet x { @lengthOf( metadata ) ) repeat lengthOf
-,a1{
-trueish	,// c
-repeat//	t
-MetaDataX , } , zchar[
-    42	] rootA // `tick` ""quote"" 'q'
-,
-    }
-")).
-Eval vm_compute in ("<<<M2100>>>" ++ check (runes_of_ascii "options{
-_x
-= true
-} } options
-{ o	= /// triple
-false
-    ; chars
-= ""\n"" } root packet	Pad
-/// triple
-// packet A { u8 x, }
-{	chars
-    // a // b
-    ,}")).
-Eval vm_compute in ("<<<M4125>>>" ++ check (runes_of_ascii "packet u128 {
-    @leftPad(' ')
-    @tag(3)
-    @calculatedFrom(""abc"")
-    repeat A,
-}
-
-packet x {
-    u16 Z9_ `u8 x,`,
-}
-
-packet int {
-    Logon chars,
-}")).
-Eval vm_compute in ("<<<M2092>>>" ++ check (runes_of_ascii "options{
-_x
-) true
 } options
 { o	= /// triple
 false
     ; chars
 = ""\n"" } root packet	Pad
 /// triple
-// packet A { u8 x, }
+// packet A { u@tag8 x, }
 {	chars
     // a // b
     ,}")).
-Eval vm_compute in ("<<<M2099>>>" ++ check (runes_of_ascii "options{
-_x
-= true
- options
-{ o	= /// triple
-false
-    ; chars
-= ""\n"" } root packet	Pad
-/// triple
-// packet A { u8 x, }
-{	chars
-    // a // b
-    ,}")).
-Eval vm_compute in ("<<<M2378>>>" ++ check (runes_of_ascii "// c
+Eval vm_compute in ("<<<M4082>>>" ++ check (runes_of_ascii "  root packet	matchKey{
+
+zchar[
+3
+
+    ]
+    pack @calculatedFrom( ""a	b"")
+
+`doc`
+    ,	}
+
+    options
+	{ 
+}MetaData
+A  {
+int8
+	msg_type
+    // c
+
+,
+}
+")).
+Eval vm_compute in ("<<<M2398>>>" ++ check (runes_of_ascii "// c
 packet x { @lengthOf( metadata ) repeat lengthOf
 ,a1{
 trueish	,// c
-]//	t
-MetaDataX , } , zchar[
+repeat//	t
+MetaDataX ; } , zchar[
     42	] rootA // `tick` ""quote"" 'q'
 ,
     }
 ")).
-Eval vm_compute in ("<<<M4409>>>" ++ check (runes_of_ascii "packet
-
-    A {match 
-k
-    as n
-	{
-	[1
-,
-""bb""
-, 007 , ""d"",
-5
-
-    , ""f""
-, 7  ,
-
-""h"" , 9	, ""j""
+Eval vm_compute in ("<<<M920>>>" ++ check (runes_of_ascii "packet
+/// triple
+/// triple
+As
+{ }
+MetaData charz{
+i64 falsey ,A msg_type, char[ 3 ]
+trueish `say ""hi""` ,float32 calculatedFrom
     ,
-11
-,	""l""
-    ] :
-	B
-
-, 2:	C  }
-
-,
-
-}
+string i8i8, }
 ")).
-Eval vm_compute in ("<<<M973>>>" ++ check (runes_of_ascii "
+Eval vm_compute in ("<<<M3842>>>" ++ check (runes_of_ascii "
+root
+
+    packet	matchKey  { zchar[3	]
+	pack @calculatedFrom(
+""a	b""	)	`doc`  ,
+
+    } 
+
+    // c
+
 options
-{ BodyLength
-= zchar[ 0123456789 ] } options
+{}
+MetaData
+A{	int8
+msg_type,
+
+    }")).
+Eval vm_compute in ("<<<M1286>>>" ++ check (runes_of_ascii "
+packet u { repeat char[// " ++ [27880; 37322]%N ++ runes_of_ascii "
+10] crc
+, repeat string x  ,  match
+//	t
+//
+charz as
+    tag{
+007 :
+options1
+    , } ,Packet @lengthOf(trueish
+) ,
+}")).
+Eval vm_compute in ("<<<M843>>>" ++ check (runes_of_ascii "options
 {
-asx = ""a\""b"" ;rootA =	char[] roots
-=""{,}"" ; int= ""it's"" // `tick` ""quote"" 'q'
-; }
-")).
-Eval vm_compute in ("<<<M297>>>" ++ check (runes_of_ascii "packet
-    // " ++ [27880; 37322]%N ++ runes_of_ascii "
-    Foo
-{ //x
-uint8x
-// " ++ [27880; 37322]%N ++ runes_of_ascii "
-// " ++ [128512]%N ++ runes_of_ascii " emoji
-,match
-len as options1
+crc
+//
 // a // b
-// trailing space 
-{ 3 /// triple
-:i64_ , }
-, }
+=
+    // packet A { u8 x, }
+    ""abc""
+    ; stringy =
+    '0' ;
+Logon
+= zchar[
+10  ]
+    float// a // b
+=
+    false	}
 ")).
-Eval vm_compute in ("<<<M3675>>>" ++ check (runes_of_ascii "packet A {
+Eval vm_compute in ("<<<M1188>>>" ++ check (runes_of_ascii "options{ roots=
+    char[ 7 ]
+len // c
+= i32 }
+    // a // b
+    MetaData u8x
+    {i64
+a1
+    , }
+packet metadata { @leftPad
+( ) int64 len, }
+")).
+Eval vm_compute in ("<<<M710>>>" ++ check (runes_of_ascii "root packet options1 {
+    }	options { u
+    =  4294967296
+    As=
+""abc""  f32a = ' ' ; len // packet A { u8 x, }
+=char[] ; uint8x
+= true}
+")).
+Eval vm_compute in ("<<<M3525>>>" ++ check (runes_of_ascii "root packet
+    // c1
+P
+    // c2
+{ // c3a
+  // c3b
+char // c4a
+  // c4b
+c , // c6
+u8 // c7a
+  // c7b
+x , // c9a
+  // c9b
+}
+    // c10
+")).
+Eval vm_compute in ("<<<M1285>>>" ++ check (runes_of_ascii "root	packet rootA
+/// triple
+//	t
+{
+    @lengthOf( A) zchar[
+    65535 ]len	`a\` ,  } root packet
+packetx
+{ uint8 i8i8 , }
+// c
+")).
+Eval vm_compute in ("<<<M523>>>" ++ check (runes_of_ascii "//
+MetaData i8i8 { } root packet
+    roots {
+repeat u16 BodyLength `
+` ,
+    } options {	string_ = """ ++ [233]%N ++ runes_of_ascii "t" ++ [233]%N ++ runes_of_ascii """ ; }
+packet i64_
+{}
+")).
+Eval vm_compute in ("<<<M3545>>>" ++ check (runes_of_ascii "packet B {
     u8 a,
 }
-
-packet B {
-    u16 b,
-}
-
 root packet P {
     u8 K,
-    match K as M {
-        1 : A,
+    u64 L @lengthOf(Body),
+    match K as Body {
         1 : B,
     },
-}")).
-Eval vm_compute in ("<<<M3836>>>" ++ check (runes_of_ascii "packet A {
-    match k as n {
-        [
-            1, 007, 5, ""bb"", ""d"",
-            ""f""
-        ] : B,
-        2 : C,
-    },
-}")).
-Eval vm_compute in ("<<<M4162>>>" ++ check (runes_of_ascii "options {
-    x = 0;
-    /// triple
-    /// triple
-    Header = ""1"";
-    zchar = '0'
-    Pad = float64;
 }
-
-MetaData u128 {
-}")).
-Eval vm_compute in ("<<<M4527>>>" ++ check (runes_of_ascii "
-
-  packet	metadata{
-
-    Logon	{
-A `" ++ [28040; 24687; 31867; 22411]%N ++ runes_of_ascii "`
-,tag 
-o
-	,
-
-}
-
-    ,zchar
-
-    len
-	`// not a comment`
-    ,// c
-    	}
 ")).
-Eval vm_compute in ("<<<M3339>>>" ++ check (runes_of_ascii "root packet matchKey { zchar[ 3 ] pack @calculatedFrom( ""a	b"" ) `doc` , }
+Eval vm_compute in ("<<<M3333>>>" ++ check (runes_of_ascii "root packet matchKey { zchar[ 3 ] pack @calculatedFrom( ""a	b"" )
 // c
-options { } MetaData A { int8 msg_type , }")).
-Eval vm_compute in ("<<<M1458>>>" ++ check (runes_of_ascii "
+`doc` , } options { } MetaData A { int8 msg_type , }")).
+Eval vm_compute in ("<<<M3915>>>" ++ check (runes_of_ascii "
+
+  MetaData
+
+    body
+{
+    i64
+
+    pack	`it's` , }
+
 packet
-    falsey { Header@calculatedFrom(""packet""  ) , char[
-    0123456789 ] packetx
-    , , } // `tick` ""quote"" 'q'")).
-Eval vm_compute in ("<<<M1410>>>" ++ check (runes_of_ascii "
+
+    stringy  // c
+	  { int16 calculatedFrom
+	,	} ")).
+Eval vm_compute in ("<<<M4115>>>" ++ check (runes_of_ascii "
+MetaData
+
+    float
+
+    { float64 
+  // c
+charz
+
+`
+`	,}
+    root	packet
+    chars{@rightPad (
+'0' 
+)	Foo ,
+
+} ")).
+Eval vm_compute in ("<<<M1407>>>" ++ check (runes_of_ascii "
 packet
-    falsey : Header@calculatedFrom(""packet""  ) , char[
+    falsey  Header@calculatedFrom(""packet""  ) , char[
     0123456789 ] packetx
     , } // `tick` ""quote"" 'q'")).
-Eval vm_compute in ("<<<M2361>>>" ++ check (runes_of_ascii "// c
-packet x { @lengthOf( metadata ) repeat lengthOf
-,a1{
-trueish	,// c
-repeat//	t
-MetaDataX , } , zchar[
-    42	]")).
-Eval vm_compute in ("<<<M3895>>>" ++ check (runes_of_ascii "packet Z9_ {
-    @tag(00)
-    @tag(7)
-    @lengthOf(Logon)
-    zchar[0123456789] x_y_z @calculatedFrom(""a\\""),
-}")).
-Eval vm_compute in ("<<<M3814>>>" ++ check (runes_of_ascii "MetaData
-body  { i64	pack 	 // c
-  `it's` 
-,}packet stringy  {
-
-    int16
-
-calculatedFrom
-
-    ,
-
-    }
+Eval vm_compute in ("<<<M1362>>>" ++ check (runes_of_ascii "options {
+    x =
+    0  ;
+/// triple
+/// triple
+Header = ""1"" ; zchar
+    ='0' Pad= float64
+;
+} MetaData u128{	}
 ")).
-Eval vm_compute in ("<<<M4477>>>" ++ check (runes_of_ascii "packet chars
+Eval vm_compute in ("<<<M1452>>>" ++ check (runes_of_ascii "
+packet
+    falsey { Header@calculatedFrom(""packet""  ) , char[
+    0123456789 ] 
+    , } // `tick` ""quote"" 'q'")).
+Eval vm_compute in ("<<<M3880>>>" ++ check (runes_of_ascii "
+MetaData float 
+{ float64
+charz // c
+    `
+`,
+    } 
+root	packet chars{@rightPad
 
-{ }
-    packet MetaDataX
-{ @tag(
+( '0'
+    ) Foo,
+    } ")).
+Eval vm_compute in ("<<<M4425>>>" ++ check (runes_of_ascii "  MetaData
+    T{
 
-42
-    )i16	string_// c
-,
-repeat 
-x`say ""hi""`
-
-    ,	} ")).
-Eval vm_compute in ("<<<M4046>>>" ++ check (runes_of_ascii "options {
-    LittleEndian = true;
-}
-
-root packet P {
-    u16 a,
-    u32 Sum @calculatedFrom(""CRC32""),
-}")).
-Eval vm_compute in ("<<<M37>>>" ++ check (runes_of_ascii "MetaData
-chars { f32 metadata , i64
-    metadata
-// trailing space 
-//x
-`
-` // `tick` ""quote"" 'q'
-,}")).
-Eval vm_compute in ("<<<M453>>>" ++ check (runes_of_ascii "
-root packet string_ //	t
-{ @lengthOf(
-o ) @leftPad(	)
-repeat char[
-3 ] rootA
-, } // @lengthOf(")).
-Eval vm_compute in ("<<<M3697>>>" ++ check (runes_of_ascii "
-//
-  options {  charz
-
-=""1""
-
-trueish = """"
-;  asx  =
-	'0'	i8i8 //	t
-    = ""it's""
-	;
-
-    }
-")).
-Eval vm_compute in ("<<<M3696>>>" ++ check (runes_of_ascii "packet chars {
-}
-
-packet MetaDataX {
-    @tag(42)
-    i16 string_,
-    repeat x `say ""hi""`,
-}")).
-Eval vm_compute in ("<<<M2173>>>" ++ check (runes_of_ascii "options{
+char[]
+packetx 	 //	t
+, 	 //
+  	Packet
+u ,
+    i32 
 _x
-= true
-} options
-{ o	= /// triple
-false
-    ; chars
-= ""\n"" } root packet	Pad")).
-Eval vm_compute in ("<<<M3275>>>" ++ check (runes_of_ascii "MetaData float { float64 // c
-charz `
-` , } root packet chars { @rightPad ( '0' ) Foo , }")).
-Eval vm_compute in ("<<<M3486>>>" ++ check (runes_of_ascii "packet
-// c
-chars { } packet MetaDataX { @tag( 42 ) i16 string_ , repeat x `say ""hi""` , }")).
-Eval vm_compute in ("<<<M3518>>>" ++ check (runes_of_ascii "packet chars { } packet MetaDataX { @tag( 42 ) i16 string_ , repeat x `say ""hi""` ,
-// c
-}")).
-Eval vm_compute in ("<<<M2249>>>" ++ check (runes_of_ascii "options
-{ } options { BodyLength= u16 float32= f64 ; u128 =
-    true
-    ; } // a // b")).
-Eval vm_compute in ("<<<M1379>>>" ++ check (runes_of_ascii "packet metadata {
-    @lengthOf(  Header) // " ++ [27880; 37322]%N ++ runes_of_ascii "
-float32
-options1
-    `line1
-line2`
-,}")).
-Eval vm_compute in ("<<<M3225>>>" ++ check (runes_of_ascii "packet metadata { Logon { A `" ++ [28040; 24687; 31867; 22411]%N ++ runes_of_ascii "` // c
-, tag o , } , zchar len `// not a comment` , }")).
-Eval vm_compute in ("<<<M2211>>>" ++ check (runes_of_ascii "string
-{ } options { BodyLength= u16 Header= f64 ; u128 =
-    true
-    ; } // a // b")).
-Eval vm_compute in ("<<<M3445>>>" ++ check (runes_of_ascii "packet o { repeat Logon uint8x , } options // c
-{ asx = zchar[ 3 ] stringy = '\x00' }")).
-Eval vm_compute in ("<<<M3719>>>" ++ check (runes_of_ascii "MetaData body {
-    i64 pack `it's`,
+	, uint16
+
+    asx
+, 
+}
+")).
+Eval vm_compute in ("<<<M487>>>" ++ check (runes_of_ascii "
+options {
+    A
+= 42 /// triple
+;
+    body =
+false; options1 = 0123456789 ; As
+= char[
+    7
+] ; }")).
+Eval vm_compute in ("<<<M4272>>>" ++ check (runes_of_ascii "MetaData float {
+    float64 charz `
+    `,// c
 }
 
-packet stringy {
-    int16 calculatedFrom,
+root packet chars {
+    @rightPad('0')
+    Foo,
 }")).
-Eval vm_compute in ("<<<M2916>>>" ++ check (runes_of_ascii "packet A {
+Eval vm_compute in ("<<<M3830>>>" ++ check (runes_of_ascii "MetaData A {
+    zchar[42] string_,
+}
+
+MetaData u {
+    // a // b
+}
+
+options {
+    o = ""CRC32"";
+}")).
+Eval vm_compute in ("<<<M2970>>>" ++ check (runes_of_ascii "packet A {
   match k as n {
-    [""a"", 22, ""c c"", 4, ""e"", 66] : B,
+    [1, 22, ""c c"", 4, 5, ""f"", 7, 8, ""i"", 10] : B,
     2 : C
   },
 }")).
-Eval vm_compute in ("<<<M3588>>>" ++ check (runes_of_ascii "packet order_item
-	{ u8 
-a ,
-} 
-root  packet
-	new_order 
-{ order_item
+Eval vm_compute in ("<<<M3676>>>" ++ check (runes_of_ascii "
+root 
+packet roots
+{
+    // " ++ [128512]%N ++ runes_of_ascii " emoji
+		calculatedFrom 	 // c
+    	x_y_z
 
-, 
-u8
-
-x,}
+,
+	}  // a // b
 ")).
-Eval vm_compute in ("<<<M2163>>>" ++ check (runes_of_ascii "options{
-_x
-= true
-} options
-{ o	= /// triple
-false
-    ; chars
-= ""\n"" } root")).
+Eval vm_compute in ("<<<M3305>>>" ++ check (runes_of_ascii "MetaData float { float64 charz `
+` , } root packet chars { @rightPad ( '0' ) Foo , } // c
+")).
+Eval vm_compute in ("<<<M3281>>>" ++ check (runes_of_ascii "MetaData float { float64 charz `
+` , // c
+} root packet chars { @rightPad ( '0' ) Foo , }")).
+Eval vm_compute in ("<<<M3492>>>" ++ check (runes_of_ascii "packet chars { }
+// c
+packet MetaDataX { @tag( 42 ) i16 string_ , repeat x `say ""hi""` , }")).
+Eval vm_compute in ("<<<M16>>>" ++ check (runes_of_ascii "packet Z9_// packet A { u8 x, }
+{ @tag(
+4294967296 )uint8x@calculatedFrom( ""abc"" ), }
+
+")).
+Eval vm_compute in ("<<<M2298>>>" ++ check (runes_of_ascii "options
+{ } options { BodyLength= u16 Header= f64 ; " ++ [8232]%N ++ runes_of_ascii "u128 =
+    true
+    ; } // a // b")).
+Eval vm_compute in ("<<<M2229>>>" ++ check (runes_of_ascii "options
+{ } options ) BodyLength= u16 Header= f64 ; u128 =
+    true
+    ; } // a // b")).
+Eval vm_compute in ("<<<M3232>>>" ++ check (runes_of_ascii "packet metadata { Logon { A `" ++ [28040; 24687; 31867; 22411]%N ++ runes_of_ascii "` , tag o
+// c
+, } , zchar len `// not a comment` , }")).
+Eval vm_compute in ("<<<M2286>>>" ++ check (runes_of_ascii "options
+{ } options { BodyLength= u16 Header= f64 ; u128 =
+    true
+    ;  // a // b")).
+Eval vm_compute in ("<<<M3455>>>" ++ check (runes_of_ascii "packet o { repeat Logon uint8x , } options { asx = zchar[ 3 // c
+] stringy = '\x00' }")).
+Eval vm_compute in ("<<<M1054>>>" ++ check (runes_of_ascii "MetaData A { } packet
+    asx { @calculatedFrom(""`tick`""
+) matchKey uint8x `" ++ [233]%N ++ runes_of_ascii "` ,
+}
+")).
+Eval vm_compute in ("<<<M3398>>>" ++ check (runes_of_ascii "MetaData body { // c
+i64 pack `it's` , } packet stringy { int16 calculatedFrom , }")).
+Eval vm_compute in ("<<<M1166>>>" ++ check (runes_of_ascii "/// triple
+options
+{ Z9_ =
+007;
+// a // b
+//
+Pad =0123456789
+u  = ""CRC32""
+    }
+")).
+Eval vm_compute in ("<<<M2221>>>" ++ check (runes_of_ascii "options
+{ }  { BodyLength= u16 Header= f64 ; u128 =
+    true
+    ; } // a // b")).
 Eval vm_compute in ("<<<M2231>>>" ++ check (runes_of_ascii "options
 { } options { = u16 Header= f64 ; u128 =
     true
     ; } // a // b")).
-Eval vm_compute in ("<<<M2906>>>" ++ check (runes_of_ascii "packet A {
+Eval vm_compute in ("<<<M2890>>>" ++ check (runes_of_ascii "packet A {
   match k as n {
-    [1, 22, ""c c"", 4, 5] : B
+    [""a"", 22, ""c c"", 4] : B,
     2 : C
   },
 }")).
-Eval vm_compute in ("<<<M2893>>>" ++ check (runes_of_ascii "packet A {
+Eval vm_compute in ("<<<M2892>>>" ++ check (runes_of_ascii "packet A {
   match k as n {
-    [1, 22, ""c c"", 4] : B
+    [1, 22, ""c c"", 4] : B,
     2 : C
   },
 }")).
-Eval vm_compute in ("<<<M4111>>>" ++ check (runes_of_ascii "
-
-  packet x	// c
-		{@rightPad (
-	)
-
-repeat 
-roots Logon	`doc`
-,  }")).
-Eval vm_compute in ("<<<M2850>>>" ++ check (runes_of_ascii "@leftPad u8 int32 [ @lengthOf( @leftPad [ { ( int64 char[ ; match")).
-Eval vm_compute in ("<<<M3002>>>" ++ check (runes_of_ascii "packet A {
-    B b `a
-b`,
-    B `a
-b`,
-    repeat B bs `a
-b`,
-}")).
-Eval vm_compute in ("<<<M2863>>>" ++ check (runes_of_ascii "packet A {
+Eval vm_compute in ("<<<M2794>>>" ++ check (runes_of_ascii "@lengthOf( options string u16 as ] i16 ( uint32 , options 7 [ uint16")).
+Eval vm_compute in ("<<<M1023>>>" ++ check (runes_of_ascii "packet x_y_z { char stringy@calculatedFrom( """ ++ [233]%N ++ runes_of_ascii "t" ++ [233]%N ++ runes_of_ascii """ ), } /// triple")).
+Eval vm_compute in ("<<<M2866>>>" ++ check (runes_of_ascii "packet A {
   match k as n {
-    [1, 22] : B
+    [1, ""bb""] : B,
     2 : C
   },
 }")).
-Eval vm_compute in ("<<<M3365>>>" ++ check (runes_of_ascii "packet // c
-x { @rightPad ( ) repeat roots Logon `doc` , }")).
-Eval vm_compute in ("<<<M2804>>>" ++ check (runes_of_ascii "{ { int32 int32 match `a\` 255 packet '0' ) repeat '\x00'")).
-Eval vm_compute in ("<<<M4326>>>" ++ check (runes_of_ascii "
-
-  MetaData
+Eval vm_compute in ("<<<M123>>>" ++ check (runes_of_ascii "
+packet crc	{ u32 T@lengthOf( x ) `crlf
+line` ,// a // b
+}")).
+Eval vm_compute in ("<<<M2606>>>" ++ check (runes_of_ascii "packet A { match k as n { 1 : B 2 : C ""s"" : D [1] : E }, }")).
+Eval vm_compute in ("<<<M4573>>>" ++ check (runes_of_ascii "options {
+    a = ""x\
+        y"";
+    b = ""x\
+        y""
+}")).
+Eval vm_compute in ("<<<M1180>>>" ++ check (runes_of_ascii "packet
+    Header
+{
+i32 float, } // `tick` ""quote"" 'q'")).
+Eval vm_compute in ("<<<M4133>>>" ++ check (runes_of_ascii "MetaData M {
+    u8 x `
+    x`,
+    T t `
+    x`,
+}")).
+Eval vm_compute in ("<<<M999>>>" ++ check (runes_of_ascii "MetaData metadata
+    {
     // c
-  Foo
-	{ 
-char[ 00
-] Pad	, }
-
+    i32
+x , }
 ")).
-Eval vm_compute in ("<<<M399>>>" ++ check (runes_of_ascii "
-packet
-    msg_type {repeat //	t
-lengthOf _x ,
+Eval vm_compute in ("<<<M1126>>>" ++ check (runes_of_ascii "packet Logon
+    { string u  `two words` , }
+")).
+Eval vm_compute in ("<<<M2762>>>" ++ check (runes_of_ascii "zchar[ @leftPad root repeat ) char [ [ char")).
+Eval vm_compute in ("<<<M4333>>>" ++ check (runes_of_ascii "packet A {
+    B {
+        u8 x,
+    },
 }")).
-Eval vm_compute in ("<<<M1101>>>" ++ check (runes_of_ascii "packet
-len{
-int16 trueish
-`
-` // " ++ [128512]%N ++ runes_of_ascii " emoji
-, }
+Eval vm_compute in ("<<<M371>>>" ++ check (runes_of_ascii "//
+packet u8x{
+    }	packet
+    crc { }")).
+Eval vm_compute in ("<<<M2741>>>" ++ check (runes_of_ascii "Si%1~!4?\#L9=!>+J5vW%0b""]sse$x8k|lJ9Z")).
+Eval vm_compute in ("<<<M1033>>>" ++ check (runes_of_ascii "options {
+_x = 65535// " ++ [128512]%N ++ runes_of_ascii " emoji
+; }
 ")).
-Eval vm_compute in ("<<<M1216>>>" ++ check (runes_of_ascii "
-MetaData
-    A
-    //x
-    { char[] asx ,}
-")).
-Eval vm_compute in ("<<<M2602>>>" ++ check (runes_of_ascii "packet A { B { match k as n { 1 : C }, }, }")).
-Eval vm_compute in ("<<<M3188>>>" ++ check (runes_of_ascii "
-// c
-root packet u128 { chars `it's` , }")).
-Eval vm_compute in ("<<<M4350>>>" ++ check (runes_of_ascii "packet o {
+Eval vm_compute in ("<<<M3012>>>" ++ check (runes_of_ascii "root packet A {
+    u8 x `a
+b`,
+}")).
+Eval vm_compute in ("<<<M2657>>>" ++ check (runes_of_ascii "options { a = 1; b = 2 c = 3;; }")).
+Eval vm_compute in ("<<<M891>>>" ++ check (runes_of_ascii "options {
+zchar	= '\x00' ;
 }
-
-options {
-    Logon = 00
+")).
+Eval vm_compute in ("<<<M396>>>" ++ check (runes_of_ascii "  options
+{ a1 = ' '
+    ; }")).
+Eval vm_compute in ("<<<M1338>>>" ++ check (runes_of_ascii "root
+    packet chars { }
+")).
+Eval vm_compute in ("<<<M2628>>>" ++ check (runes_of_ascii "packet A { u8 x, @tag(1) }")).
+Eval vm_compute in ("<<<M3951>>>" ++ check (runes_of_ascii "// c
+root packet pack {
 }")).
-Eval vm_compute in ("<<<M2608>>>" ++ check (runes_of_ascii "packet A { match k as n { [] : B }, }")).
-Eval vm_compute in ("<<<M789>>>" ++ check (runes_of_ascii "root packet MetaDataX {	} // a // b")).
-Eval vm_compute in ("<<<M2618>>>" ++ check (runes_of_ascii "packet A { match k as n { 1 B }, }")).
-Eval vm_compute in ("<<<M21>>>" ++ check (runes_of_ascii "//	t
-packet Packet{ u64 tag
-,}
-")).
-Eval vm_compute in ("<<<M3043>>>" ++ check (runes_of_ascii "packet A {
-    u8 x `tab
-	x`,
-}")).
-Eval vm_compute in ("<<<M3137>>>" ++ check (runes_of_ascii "packet A {
- u8 x `d" ++ [65279]%N ++ runes_of_ascii "`, // c" ++ [65279]%N ++ runes_of_ascii "
-}")).
-Eval vm_compute in ("<<<M314>>>" ++ check (runes_of_ascii "MetaData roots	{ u Logon ,}")).
-Eval vm_compute in ("<<<M2623>>>" ++ check (runes_of_ascii "packet A { @tag(x) u8 x, }")).
-Eval vm_compute in ("<<<M4439>>>" ++ check (runes_of_ascii "
-
-  // c" ++ [11]%N ++ runes_of_ascii "
-
-packet
-
-A { } ")).
-Eval vm_compute in ("<<<M3938>>>" ++ check (runes_of_ascii "// c" ++ [5760]%N ++ runes_of_ascii "
-  packet 
-A
-	{}
-")).
-Eval vm_compute in ("<<<M733>>>" ++ check (runes_of_ascii "packet  Z9_{
-    }
-")).
-Eval vm_compute in ("<<<M2573>>>" ++ check (runes_of_ascii "packet A { x y z, }")).
-Eval vm_compute in ("<<<M610>>>" ++ check (runes_of_ascii "root packet A { }
-")).
-Eval vm_compute in ("<<<M3116>>>" ++ check (runes_of_ascii "// c" ++ [11]%N ++ runes_of_ascii "
+Eval vm_compute in ("<<<M2715>>>" ++ check (runes_of_ascii "U;|@OK7+-3OJxNfG`GF-D*L")).
+Eval vm_compute in ("<<<M3148>>>" ++ check (runes_of_ascii "packet A {
+}// a// b")).
+Eval vm_compute in ("<<<M393>>>" ++ check (runes_of_ascii " // trailing space ")).
+Eval vm_compute in ("<<<M149>>>" ++ check (runes_of_ascii "packet	crc
+    { }")).
+Eval vm_compute in ("<<<M3111>>>" ++ check (runes_of_ascii "// c" ++ [8287]%N ++ runes_of_ascii "
 packet A {
 }")).
-Eval vm_compute in ("<<<M3063>>>" ++ check (runes_of_ascii "packet A {
-}// c" ++ [12288]%N)).
+Eval vm_compute in ("<<<M3058>>>" ++ check (runes_of_ascii "packet A {
+}// c ")).
 Eval vm_compute in ("<<<M2764>>>" ++ check (runes_of_ascii "%w)<yjd'GFjF/'l0")).
-Eval vm_compute in ("<<<M2413>>>" ++ check (runes_of_ascii "// c
-packet x")).
-Eval vm_compute in ("<<<M2841>>>" ++ check (runes_of_ascii "f63].b{\{1C")).
-Eval vm_compute in ("<<<M2480>>>" ++ check (runes_of_ascii "@leftPad")).
-Eval vm_compute in ("<<<M241>>>" ++ check (runes_of_ascii "
-
-//x
-")).
-Eval vm_compute in ("<<<M2441>>>" ++ check (runes_of_ascii "uint8")).
-Eval vm_compute in ("<<<M319>>>" ++ check (runes_of_ascii "
-//
-")).
-Eval vm_compute in ("<<<M179>>>" ++ check (runes_of_ascii "  
-")).
-Eval vm_compute in ("<<<M2781>>>" ++ check (runes_of_ascii "u32")).
-Eval vm_compute in ("<<<M2497>>>" ++ check (runes_of_ascii "/")).
+Eval vm_compute in ("<<<M1129>>>" ++ check (runes_of_ascii "MetaData
+o{ }")).
+Eval vm_compute in ("<<<M2833>>>" ++ check ([651]%N ++ runes_of_ascii "o" ++ [65533; 65533]%N ++ runes_of_ascii "
+z" ++ [65533; 15; 21; 65533]%N ++ runes_of_ascii "y")).
+Eval vm_compute in ("<<<M2505>>>" ++ check (runes_of_ascii "// ab
+c")).
+Eval vm_compute in ("<<<M2456>>>" ++ check (runes_of_ascii "option")).
+Eval vm_compute in ("<<<M2511>>>" ++ check (runes_of_ascii """a\""""")).
+Eval vm_compute in ("<<<M2460>>>" ++ check (runes_of_ascii "root")).
+Eval vm_compute in ("<<<M2500>>>" ++ check (runes_of_ascii "///")).
+Eval vm_compute in ("<<<M2476>>>" ++ check (runes_of_ascii "''")).
+Eval vm_compute in ("<<<M2678>>>" ++ check (runes_of_ascii "1")).
